@@ -1,10 +1,17 @@
 """
-C13 — fail-stop.  Proof: Sqfs/Props/C13.lean about Sqfs/Model/FailStop.lean (the packers' main skeleton with
-fallible steps) and Sqfs/Model/FailStopBlockProc.lean (block processor with fallible primitives).
-Tie: single-fault enumeration on the real tools built from the working tree (ASan+UBSan, project allocations
-renamed to counting wrappers, system calls wrapped at link time — harness/shim_fault.c).  For every fault the
-outcome class and the progress trace of the real run are compared with the model's prediction for a fault in the
-step the backtrace of the fault lies in.
+C13 — fail-stop.  Proof: Sqfs/Props/C13.lean about Sqfs/Model/FailStop.lean (skeleton of the four tools' main
+functions, sqfs_writer_init/finish/cleanup, pack_files, process_tarball as ordered fallible call sites, with the
+working directory as state) and Sqfs/Model/FailStopBlockProc.lean (block processor with fallible primitives).
+
+Tie (every run of the check): the real tools are built from the working tree with ASan+UBSan, project allocations
+renamed to counting wrappers, system calls wrapped at link time and every function instrumented
+(-finstrument-functions, harness/shim_fault.c).  Per case a counting run, then single faults at every position
+(errno failures, NULL allocations, *truncated input*: EOF / short read).  For every run
+  (1) the ordered list of calls made by the skeleton functions is mapped to model sites (an unknown callee is a
+      correspondence failure) and must equal `Trace.ran` of the model for a fault at the same position; exit status,
+      presence of the output, what unlink hit, diagnostic and progress messages must equal the model's `Result`;
+  (2) the site in which the fault fired must be the last site executed (first_failure_stops on the implementation);
+  (3) the outcome is judged by the specification Sqfs.FailStop.Spec.verdict.
 """
 import concurrent.futures, hashlib, io, json, os, re, shutil, subprocess, tarfile, time
 from pathlib import Path
@@ -12,23 +19,60 @@ import vlib
 
 LEVEL = "proof"
 MODULE = "Sqfs.Props.C13"
-REQUIRED = ["Sqfs.C13.status_success_only_at_end", "Sqfs.C13.cleanup_unlinks_unless_success",
-            "Sqfs.C13.exit0_output_eq_fault_free", "Sqfs.C13.first_failure_stops",
-            "Sqfs.C13.blockproc_error_propagates"]
+REQUIRED = ["Sqfs.C13." + n for n in (
+    "run_checked", "status_success_only_at_end", "status_success_no_fault", "cleanup_unlinks_the_stored_name",
+    "cleanup_not_reached_only_in_init", "failure_never_leaves_output", "failure_never_leaves_output_partial",
+    "failure_has_diagnostic", "exit0_output_eq_fault_free", "first_failure_stops", "reader_status_success_no_fault",
+    "reader_first_failure_stops", "blockproc_error_propagates", "blockproc_session_propagates")]
 
 ALLOC_DEFS = ["-Dmalloc=vf_malloc", "-Dcalloc=vf_calloc", "-Drealloc=vf_realloc", "-Dstrdup=vf_strdup",
-              "-Dstrndup=vf_strndup", "-fno-pie"]
+              "-Dstrndup=vf_strndup", "-fno-pie", "-finstrument-functions"]
 WRAP_SYMS = ["write", "pwrite", "pwrite64", "read", "pread", "pread64", "ftruncate", "ftruncate64", "lseek", "lseek64",
-             "fsync", "close", "open", "open64", "openat", "openat64"]
-SYS_CLASSES = ["write", "read", "trunc", "open", "lseek", "fsync", "close"]
+             "fsync", "close", "open", "open64", "openat", "openat64",
+             "chdir", "unlink", "realpath", "mkdir", "mknod", "symlink", "fstat", "fstatat", "dup", "lsetxattr", "utimensat",
+             "fchownat", "fchmodat", "readlinkat", "llistxattr", "lgetxattr"]
+SYS_CLASSES = ["write", "read", "trunc", "open", "lseek", "fsync", "close", "fsop"]
 ALLOC_CLASSES = ["malloc", "calloc", "realloc", "strdup"]
 KINDS = ["ENOSPC", "EIO", "EINTR"]
+CUT_KINDS = ["EOF", "SHORT"]          # truncated input
 TOOLS = ["gensquashfs", "tar2sqfs", "sqfs2tar", "rdsquashfs"]
-TIMEOUT = 90            # a run needs ~50 ms on an idle machine; see rerun_if_timeout
-TIMEOUT_ISOLATED = 600
+TIMEOUT = 120           # a run needs ~60 ms on an idle machine; see rerun_if_timeout
+TIMEOUT_ISOLATED = 900
+BS = 4096
+
+SKELETON = {
+    "gensquashfs": ["main", "sqfs_writer_init", "remove_output_file", "pack_files", "sqfs_writer_finish",
+                    "sqfs_dir_writer_write_export_table", "sqfs_writer_cleanup"],
+    "tar2sqfs": ["main", "sqfs_writer_init", "remove_output_file", "process_tarball", "sqfs_writer_finish",
+                 "sqfs_dir_writer_write_export_table", "sqfs_writer_cleanup"],
+    "sqfs2tar": ["main"],
+    "rdsquashfs": ["main"],
+}
+
+
+class Infra(vlib.CheckFailure):
+    """the check's own machinery did not do what it must (never a pass)"""
 
 
 # ------------------------------------------------------------------------------------------------ build
+class SymTab:
+    def __init__(self, exe):
+        r = vlib.sh(["nm", "--defined-only", str(exe)])
+        if r.returncode != 0 or not r.stdout.strip():
+            raise Infra("nm failed on %s: %s" % (exe, r.stderr[-300:]))
+        self.by_addr, self.by_name = {}, {}
+        for l in r.stdout.splitlines():
+            w = l.split()
+            if len(w) != 3 or w[1] not in "tTwW":
+                continue
+            a, name = int(w[0], 16), w[2].split(".")[0]
+            self.by_addr.setdefault(a, name)
+            self.by_name.setdefault(name, []).append(a)
+
+    def name(self, a):
+        return self.by_addr.get(a, "0x%x" % a)
+
+
 def build_tools(ctx):
     shim = ctx.scratch / "shim_fault.o"
     cmd = ["gcc", "-O1", "-g", "-c", "-DVF_WRAP", "-fno-pie", "-fno-omit-frame-pointer", str(vlib.HARNESS / "shim_fault.c"), "-o", str(shim)]
@@ -36,7 +80,18 @@ def build_tools(ctx):
     if r.returncode != 0:
         raise vlib.CheckFailure("shim_fault.c does not compile: " + r.stderr[-2000:])
     ld = ["-no-pie", "-Wl," + ",".join("--wrap=" + s for s in WRAP_SYMS)]
-    return {t: ctx.build_tool(t, tag="fault", flags=ALLOC_DEFS, extra_objs=[str(shim)], ldflags=ld) for t in TOOLS}
+    tools = {t: ctx.build_tool(t, tag="fault", flags=ALLOC_DEFS, extra_objs=[str(shim)], ldflags=ld) for t in TOOLS}
+    syms, skel = {}, {}
+    for t, exe in tools.items():
+        st = SymTab(exe)
+        addrs = []
+        for fn in SKELETON[t]:
+            if fn not in st.by_name:
+                raise vlib.CheckFailure("skeleton function %s is not in the symbol table of %s: the model's phase structure no longer "
+                                        "matches the sources" % (fn, t))
+            addrs += st.by_name[fn]
+        syms[t], skel[t] = st, ",".join("%x" % a for a in addrs)
+    return tools, syms, skel
 
 
 # ------------------------------------------------------------------------------------------------ inputs
@@ -48,96 +103,141 @@ def det_bytes(seed, n):
     return bytes(out[:n])
 
 
-BS = 4096
-
-
 def file_set(rng, scale=1):
     """(name, bytes) list: a fragment-only file, a duplicate pair of multi-block files, an all-zero tail, sparse
-    blocks, a file that is an exact multiple of the block size, an empty file"""
-    big = det_bytes("big%d" % rng.randint(0, 9), BS * 2 * scale + 100)
-    return [
+    blocks, a file that is an exact multiple of the block size, an empty file — plus seed-dependent extras"""
+    big = det_bytes("big%d" % rng.randint(0, 9), BS * 2 * scale + rng.choice([1, 100, 1000, BS - 1]))
+    fs = [
         ("a.txt", b"hello fail-stop\n" * 3),
         ("big1.bin", big),
         ("dir1/big2.bin", big),                                  # duplicate of big1 (block dedup + fragment dedup)
         ("dir1/frag.txt", b"hello fail-stop\n" * 3),             # duplicate fragment of a.txt
-        ("zero_small", b"\0" * 100),                             # sparse tail: backend.c process_completed_fragment
+        ("zero_small", b"\0" * rng.choice([1, 100, 511])),       # sparse tail: backend.c process_completed_fragment
         ("zero_big", b"\0" * (BS * 2 + 17)),                     # sparse blocks + sparse tail (index 2)
         ("exact.bin", det_bytes("exact", BS * scale)),           # no tail → sentinel path
         ("dir2/empty", b""),
         ("dir2/incompr.bin", det_bytes("inc", BS + 1234)),
     ]
+    for i in range(rng.randint(0, 2)):                           # seed-dependent extras
+        kind = rng.choice("uzm")
+        n = rng.choice([7, 700, BS, BS + 9, 3 * BS + 50])
+        data = b"\0" * n if kind == "z" else det_bytes("x%d%d" % (i, n), n) if kind == "u" else (b"\0" * BS + det_bytes("m", n))
+        fs.append(("dir2/x%d.dat" % i, data))
+    return fs
 
 
-def make_tree(d, files):
+def small_file_set(rng):
+    return [("f0.txt", b"relative output\n"), ("sub/f1.bin", det_bytes("rel%d" % rng.randint(0, 99), BS + rng.choice([5, 900]))),
+            ("sub/z", b"\0" * 300)]
+
+
+def make_tree(d, files, links=True):
     d.mkdir(parents=True, exist_ok=True)
     for name, data in files:
         p = d / name
         p.parent.mkdir(parents=True, exist_ok=True)
         p.write_bytes(data)
-    os.link(d / "a.txt", d / "dir2" / "hl_a")                     # hard link
-    os.symlink("../a.txt", d / "dir1" / "sl")
+    if links:
+        os.link(d / "a.txt", d / "dir2" / "hl_a")                     # hard link
+        os.symlink("../a.txt", d / "dir1" / "sl")
     for p in sorted(d.rglob("*")):
         os.utime(p, (1000000000, 1000000000), follow_symlinks=False)
+    os.utime(d, (1000000000, 1000000000))
 
 
-def make_packfile(d, files, many=0):
-    """pack file + xattr file + sort file for gensquashfs -F"""
-    lines, dirs = [], set()
+def dirs_of(files):
+    dirs = []
     for name, _ in files:
         parts = name.split("/")[:-1]
         for i in range(len(parts)):
-            dirs.add("/".join(parts[:i + 1]))
-    for x in sorted(dirs):
-        lines.append("dir %s 0755 1000 100" % x)
+            x = "/".join(parts[:i + 1])
+            if x not in dirs:
+                dirs.append(x)
+    return dirs
+
+
+def make_packfile(d, files, extras=True, src_prefix=""):
+    """pack file + xattr file + sort file (+ SELinux context file) for gensquashfs -F"""
+    lines = ["dir %s 0755 1000 100" % x for x in sorted(dirs_of(files))]
     for name, _ in files:
-        lines.append("file %s 0644 1000 100 %s" % (name, name))
-    lines.append("slink dir1/sl 0777 0 0 ../a.txt")
-    lines.append("link dir2/hl_a 0 0 0 a.txt")
-    lines.append("nod dir2/console 0600 0 5 c 5 1")
-    lines.append("pipe dir2/fifo 0600 7 7")
-    for i in range(many):
-        lines.append("dir m%04d 0755 0 0" % i)
+        lines.append("file %s 0644 1000 100 %s%s" % (name, src_prefix, name))
+    if extras:
+        lines.append("slink dir1/sl 0777 0 0 ../a.txt")
+        lines.append("link dir2/hl_a 0 0 0 a.txt")
+        lines.append("nod dir2/console 0600 0 5 c 5 1")
+        lines.append("pipe dir2/fifo 0600 7 7")
     (d / "pack.txt").write_text("\n".join(lines) + "\n")
     (d / "xattr.txt").write_text("# file: a.txt\nuser.k1=\"v1\"\nuser.k2=0xCAFE\n\n# file: dir1\nuser.k1=\"v1\"\n\n# file: big1.bin\nuser.k1=\"v1\"\nuser.k2=0xCAFE\n")
-    (d / "sort.txt").write_text("-10 dir2/incompr.bin\n5 [dont_compress,dont_fragment] exact.bin\n")
+    (d / "sort.txt").write_text("-10 dir2/incompr.bin\n5 [dont_compress,dont_fragment] exact.bin\n7 [dont_deduplicate] dir1/big2.bin\n")
+    (d / "contexts").write_text("/.*\tsystem_u:object_r:etc_t:s0\n/a\\.txt\tsystem_u:object_r:bin_t:s0\n")
 
 
-def make_tar(path, files):
+def make_tar(path, files, root_prefix=None):
+    """PAX tar; returns (entry letters for the model, header offsets, end of the last entry's data)"""
+    members = []
     with tarfile.open(path, "w", format=tarfile.PAX_FORMAT) as tf:
         seen = set()
+
+        def add(ti, data=None):
+            tf.addfile(ti, io.BytesIO(data) if data is not None else None)
+            members.append(ti)
         for name, data in files:
-            parts = name.split("/")[:-1]
-            for i in range(len(parts)):
-                dn = "/".join(parts[:i + 1])
+            for dn in dirs_of([(name, b"")]):
                 if dn not in seen:
                     seen.add(dn)
                     ti = tarfile.TarInfo(dn)
                     ti.type, ti.mode, ti.mtime = tarfile.DIRTYPE, 0o755, 1000000000
-                    tf.addfile(ti)
+                    add(ti)
             ti = tarfile.TarInfo(name)
             ti.size, ti.mode, ti.mtime, ti.uid, ti.gid = len(data), 0o644, 1000000000, 1000, 100
-            if name in ("a.txt", "big1.bin"):
+            if name in ("a.txt", "big1.bin", "dir1/frag.txt"):
                 ti.pax_headers = {"SCHILY.xattr.user.k1": "v1"}
-            tf.addfile(ti, io.BytesIO(data))
-        ti = tarfile.TarInfo("dir1/sl")
-        ti.type, ti.linkname, ti.mtime = tarfile.SYMTYPE, "../a.txt", 1000000000
-        tf.addfile(ti)
-        ti = tarfile.TarInfo("dir2/hl_a")
-        ti.type, ti.linkname, ti.mtime = tarfile.LNKTYPE, "a.txt", 1000000000
-        tf.addfile(ti)
+            add(ti, data)
+        for nm, typ, target in (("dir1/sl", tarfile.SYMTYPE, "../a.txt"), ("dir1/sl2", tarfile.SYMTYPE, "dir1/frag.txt"),
+                                ("dir2/hl_a", tarfile.LNKTYPE, "a.txt"), ("dir1/hl_f", tarfile.LNKTYPE, "dir1/frag.txt")):
+            ti = tarfile.TarInfo(nm)
+            ti.type, ti.linkname, ti.mtime = typ, target, 1000000000
+            add(ti)
+    letters = []
+    for ti in members:
+        link = ti.type in (tarfile.SYMTYPE, tarfile.LNKTYPE)
+        skipped = root_prefix is not None and not (ti.name == root_prefix or ti.name.startswith(root_prefix + "/"))
+        letters.append({(False, False): "n", (True, False): "l", (False, True): "s", (True, True): "k"}[(link, skipped)])
+    with tarfile.open(path) as tf:
+        ms = tf.getmembers()
+        offs = [m.offset for m in ms]
+        last = ms[-1]
+        end = last.offset_data + ((last.size + 511) // 512) * 512
+    # places where an archive can end that are *not* between two entries: inside a header, inside the payload or the
+    # padding of an extended (PAX) header, inside file data, inside the padding behind file data
+    struct = []
+    for m in ms:
+        struct.append(("header", m.offset + 100))
+        if m.offset_data - m.offset > 512:
+            struct += [("pax-payload", m.offset + 512 + 10), ("pax-padding", m.offset + 1024 - 200), ("main-header", m.offset_data - 300)]
+        if m.size:
+            struct.append(("data", m.offset_data + m.size // 2))
+            if m.size % 512:
+                struct.append(("data-padding", m.offset_data + m.size + (512 - m.size % 512) // 2))
+    return "".join(letters), offs + [end], (end, struct)
 
 
+# ------------------------------------------------------------------------------------------------ running one case
 class Case:
     """one tool invocation whose faults are enumerated"""
 
-    def __init__(self, name, tool, argv, out_kind, out_path, stdin=None, cwd=None, model=None):
-        self.name, self.tool, self.argv, self.out_kind, self.out_path = name, tool, argv, out_kind, out_path
-        self.stdin, self.cwd, self.model = stdin, cwd, model or {}
+    def __init__(self, name, tool, argv, out_kind, stdin=None, cwd=None, rel_out=False, model=None, plan="full", mt=False,
+                 cut=None, subst=None):
+        self.name, self.tool, self.argv, self.out_kind = name, tool, argv, out_kind
+        self.stdin, self.cwd, self.rel_out, self.model, self.plan, self.mt = stdin, cwd, rel_out, model, plan, mt
         # out_kind: 'file' (packer image), 'stdout' (sqfs2tar / rdsquashfs -c), 'tree' (rdsquashfs -u)
+        # model: ('packer', tool, flags, nfiles, entries) | ('reader', tool, flags) | None
+        # cut: how truncated input is judged: ('tar', boundaries, data_end) | ('tree', root) | ('image',) | None
+        self.cut, self.subst = cut, subst or {}
 
 
 def tree_digest(root):
-    """sha256 over the unpacked tree (names, types, sizes, bytes, symlink targets)"""
+    """sha256 over the unpacked tree (names, types, sizes, bytes, symlink targets, modes when restored)"""
     h = hashlib.sha256()
     root = Path(root)
     if not root.exists():
@@ -157,17 +257,67 @@ def tree_digest(root):
     return h.hexdigest()
 
 
-def run_case(case, exe, workdir, fault=None, timeout=TIMEOUT, env_base=None, trace=False):
-    """run once; returns dict(rc, signal, timeout, stdout_sha/bytes, stderr, out_state, report)"""
+def parse_report(rep):
+    report = {"count": {}, "fired": False, "bt": [], "exit": 0, "present": rep.exists(), "nsites": None, "stack": [], "cut": None,
+              "thread": 0, "fn": ""}
+    if not rep.exists():
+        return report
+    for l in rep.read_text().splitlines():
+        w = l.split()
+        if not w:
+            continue
+        if w[0] == "count" and len(w) == 4:
+            report["count"][(w[1], w[2])] = int(w[3])
+        elif w[0] == "fired":
+            report["fired"] = len(w) > 1 and w[1] == "1"
+            report["fn"] = w[3] if len(w) > 3 else ""
+        elif w[0] == "bt":
+            report["bt"] = w[1:]
+        elif w[0] == "post":
+            report["post"] = int(w[1])
+        elif w[0] == "exit":
+            report["exit"] = int(w[1])
+        elif w[0] == "nsites":
+            report["nsites"], report["thread"] = int(w[1]), int(w[2])
+        elif w[0] == "stack":
+            report["stack"] = [int(x, 16) for x in w[1:]]
+        elif w[0] == "cut" and len(w) >= 3:
+            report["cut"] = (" ".join(w[1:-1]), int(w[-1]))
+    return report
+
+
+def parse_sites(path):
+    """[(caller address, callee address | '@pseudo')], complete?"""
+    if not path.exists():
+        return [], False
+    log, done = [], False
+    for l in path.read_text().splitlines():
+        w = l.split()
+        if len(w) != 2:
+            continue
+        if w[0] == "end":
+            done = int(w[1]) == len(log)
+        elif w[0] == "overflow":
+            return log, False
+        else:
+            log.append((int(w[0], 16), w[1] if w[1].startswith("@") else int(w[1], 16)))
+    return log, done
+
+
+def run_case(case, exe, workdir, skel, fault=None, timeout=TIMEOUT, env_base=None, trace=False, stdin_override=None, argv_subst=None):
+    """run once; returns dict(rc, timeout, out, stdout, stderr, report, sites, sites_ok[, trace])"""
     workdir = Path(workdir)
     if workdir.exists():
         shutil.rmtree(workdir)
     workdir.mkdir(parents=True)
     out = workdir / "out"
-    argv = [a.replace("@OUT@", str(out)) for a in case.argv]
+    out_arg = os.path.relpath(out, case.cwd) if case.rel_out else str(out)
+    argv = [a.replace("@OUT@", out_arg) for a in case.argv]
+    for a, b in (argv_subst or {}).items():
+        argv = [x.replace(a, b) for x in argv]
     env = dict(env_base)
     rep = workdir / "report"
-    env["VF_REPORT"] = str(rep)
+    env.update({"VF_REPORT": str(rep), "VF_SKEL": skel, "VF_SITES": str(workdir / "sites")})
     if trace:
         env["VF_TRACE"] = str(workdir / "trace")
     if case.out_kind in ("file", "tree"):
@@ -177,7 +327,10 @@ def run_case(case, exe, workdir, fault=None, timeout=TIMEOUT, env_base=None, tra
     if fault:
         env.update({"VF_CLASS": fault["cls"], "VF_K": str(fault["k"]), "VF_SIDE": fault.get("side", "any"),
                     "VF_KIND": fault.get("kind", "EIO")})
-    stdin = open(case.stdin, "rb") if case.stdin else subprocess.DEVNULL
+        if "short" in fault:
+            env["VF_SHORT"] = str(fault["short"])
+    sp = stdin_override or case.stdin
+    stdin = open(sp, "rb") if sp else subprocess.DEVNULL
     res = {"timeout": False}
     try:
         p = subprocess.run([str(exe)] + argv, stdin=stdin, stdout=subprocess.PIPE, stderr=subprocess.PIPE, env=env,
@@ -188,7 +341,7 @@ def run_case(case, exe, workdir, fault=None, timeout=TIMEOUT, env_base=None, tra
         res["rc"], res["timeout"] = 124, True
         so, se = e.stdout or b"", e.stderr or b""
     finally:
-        if case.stdin:
+        if sp:
             stdin.close()
     res["stderr"] = se.decode("utf-8", "replace")
     if case.out_kind == "stdout":
@@ -200,22 +353,8 @@ def run_case(case, exe, workdir, fault=None, timeout=TIMEOUT, env_base=None, tra
             res["out"] = hashlib.sha256(out.read_bytes()).hexdigest() if out.exists() else "absent"
         else:
             res["out"] = tree_digest(out)
-    report = {"count": {}, "fired": False, "bt": [], "exit": 0}
-    if rep.exists():
-        for l in rep.read_text().splitlines():
-            w = l.split()
-            if w[0] == "count":
-                report["count"][(w[1], w[2])] = int(w[3])
-            elif w[0] == "fired":
-                report["fired"] = w[1] == "1"
-                report["fn"] = w[3] if len(w) > 3 else ""
-            elif w[0] == "bt":
-                report["bt"] = w[1:]
-            elif w[0] == "post":
-                report["post"] = int(w[1])
-            elif w[0] == "exit":
-                report["exit"] = int(w[1])
-    res["report"] = report
+    res["report"] = parse_report(rep)
+    res["sites"], res["sites_ok"] = parse_sites(workdir / "sites")
     if trace:
         tr = {}
         tp = workdir / "trace"
@@ -238,6 +377,8 @@ def resolve_bt(exe, addrs):
         # return addresses: subtract 1 so that the call instruction's line is reported
         q = ["0x%x" % (int(a, 16) - 1) for a in need]
         r = vlib.sh(["addr2line", "-f", "-i", "-a", "-e", str(exe)] + q)
+        if r.returncode != 0:
+            raise Infra("addr2line failed: " + r.stderr[-300:])
         cur, frames = None, {}
         lines = r.stdout.splitlines()
         i = 0
@@ -260,63 +401,171 @@ def resolve_bt(exe, addrs):
     return out
 
 
+SHIM_FN = re.compile(r"^(vf_|__wrap_|__interceptor|backtrace|__sanitizer|__cyg_profile)")
+
+
+def project_frames(frames):
+    return [(fn, loc) for fn, loc in frames if fn != "??" and not SHIM_FN.match(fn) and "shim_fault" not in loc]
+
+
+# ------------------------------------------------------------------------------------------------ call log → model sites
+def S(name):
+    return ("site", name)
+
+
+def S2(a, b):
+    return ("site2", (a, b))
+
+
+def IDX(name, ctr, pre):
+    """indexed site; `ctr` counter, pre=True: index = counter value, then increment; False: index = counter - 1"""
+    return ("idx", (name, ctr, pre))
+
+
+IGN, PHASE, UNLINK = ("ignore", None), ("phase", None), ("unlink", None)
+
+WRITER_MAP = {
+    "sqfs_writer_init": [
+        ("compressor_cfg_init_options", S("compCfg")), ("sqfs_native_file_open", S("openOut")), ("sqfs_file_open_handle", S("openHandle")),
+        ("parse_fstree_defaults", S("fsDefaults")), ("fstree_init", S("fstreeInit")), ("sqfs_compressor_create", S2("cmpCreate", "uncmpCreate")),
+        ("sqfs_super_init", S("superInit")), ("sqfs_super_write", S("superWrite")), (r"\w+_write_options", S("cmpOptions")),
+        ("sqfs_block_writer_create", S("blkwrCreate")), ("sqfs_frag_table_create", S("fragtblCreate")),
+        ("sqfs_block_processor_create_ex", S("procCreate")), ("sqfs_id_table_create", S("idtblCreate")),
+        ("sqfs_xattr_writer_create", S("xwrCreate")), ("sqfs_meta_writer_create", S2("imCreate", "dmCreate")),
+        ("sqfs_dir_writer_create", S("dirwrCreate")),
+        ("remove_output_file", PHASE), ("sqfs_perror|sqfs_drop|fstree_cleanup|sqfs_native_file_close", IGN)],
+    "remove_output_file": [(r"@unlink:\w+", UNLINK)],
+    "sqfs_writer_finish": [
+        ("sqfs_block_processor_finish", S("procFinish")), ("sqfs_serialize_fstree", S("serialize")), ("sqfs_frag_table_write", S("fragTable")),
+        ("sqfs_dir_writer_write_export_table", PHASE), ("sqfs_id_table_write", S("idTable")), ("sqfs_xattr_writer_flush", S("xattrFlush")),
+        ("sqfs_super_write", S("superRewrite")), ("padd_sqfs", S("pad")),
+        (r"\w*get_size|print_statistics|fstree_collect_stats|sqfs_perror", IGN)],
+    "sqfs_dir_writer_write_export_table": [("add_export_table_entry", S("exportAddRoot")), ("sqfs_write_table", S("exportWrite"))],
+    "sqfs_writer_cleanup": [(r"@unlink:\w+", UNLINK), ("sqfs_drop|fstree_cleanup", IGN)],
+}
+SITE_MAP = {
+    "gensquashfs": dict(WRITER_MAP, **{
+        "main": [("process_command_line", ("args", None)), ("sqfs_writer_init|pack_files|sqfs_writer_finish|sqfs_writer_cleanup", PHASE),
+                 (r"@realpath:\w+", S("realpathOut")), ("selinux_open_context_file", S("selinuxOpen")), ("xattr_open_map_file", S("xattrMapOpen")),
+                 ("sqfs_istream_open_file", S("sortfileOpen")), ("dir_tree_iterator_create", S("dirIterCreate")), ("scan_directory", S("scanDir")),
+                 ("fstree_from_file", S("fstreeFromFile")), ("fstree_post_process", S("postProcess")), ("apply_xattrs", S("applyXattrs")),
+                 ("fstree_sort_files", S("sortFiles")), ("sqfs_drop|sqfs_perror|selinux_close_context_file", IGN)],
+        "pack_files": [(r"@chdir:\w+", S("chdirPack")), ("fstree_get_path", IDX("nodePath", "file", None)), ("canonicalize_name", IGN),
+                       ("pack_file", IDX("packFile", "file", True))],
+    }),
+    "tar2sqfs": dict(WRITER_MAP, **{
+        "main": [("process_args", ("args", None)), ("sqfs_writer_init|process_tarball|sqfs_writer_finish|sqfs_writer_cleanup", PHASE),
+                 ("istream_open_stdin", S("openStdin")), ("tar_open_stream", S("tarOpen")), ("fstree_post_process", S("postProcess")),
+                 ("sqfs_drop|sqfs_perror", IGN)],
+        "process_tarball": [("it_next", IDX("tarNext", "ent", True)), ("it_read_link", IDX("tarReadLink", "ent", False)),
+                            ("set_root_attribs|create_node_and_repack_data", IDX("tarEntry", "ent", False)),
+                            ("sqfs_perror|canonicalize_name", IGN)],
+    }),
+    "sqfs2tar": {
+        "main": [("process_args", ("args", None)), ("ostream_open_stdout", S("sOpenStdout")), ("compressor_stream_create", S("sXfrmCreate")),
+                 ("ostream_xfrm_create", S("sXfrmWrap")), ("tar_compat_iterator_create", S("sIterCreate")),
+                 ("sqfs_hard_link_filter_create", S("sHlFilter")), (r"(\w+_)?next", IDX("sNext", "ent", True)),
+                 ("write_entry", IDX("sEntry", "ent", False)), ("terminate_archive", S("sTerminate")), (r"\w*flush", S("sFlush")),
+                 (r"sqfs_drop|sqfs_free|sqfs_perror|strlist_cleanup|\w*get_filename", IGN)],
+    },
+    "rdsquashfs": {
+        "main": [("process_command_line", ("args", None)), ("sqfs_file_open", S("rOpen")), ("sqfs_super_read", S("rSuper")),
+                 ("sqfs_compressor_config_init", IGN), ("sqfs_compressor_create", S("rCmpCreate")), ("sqfs_xattr_reader_create", S("rXattrCreate")),
+                 ("sqfs_xattr_reader_load", S("rXattrLoad")), ("sqfs_id_table_create", S("rIdCreate")), ("sqfs_id_table_read", S("rIdRead")),
+                 ("sqfs_dir_reader_create", S("rDirReader")), ("sqfs_data_reader_create", S("rDataReader")),
+                 ("sqfs_data_reader_load_fragment_table", S("rFragTable")), ("sqfs_dir_reader_get_full_hierarchy", S("rHierarchy")),
+                 ("list_files", IGN), ("stat_file", S("rStat")), ("sqfs_data_reader_create_stream", S("rCatStream")),
+                 ("ostream_open_stdout", S("rCatStdout")), ("sqfs_istream_splice", IDX("rSplice", "splice", True)), ("tree_sort", S("rTreeSort")),
+                 ("mkdir_p", S("rMkdirP")), (r"@chdir:\w+", S("rChdir")), ("restore_fstree", S("rRestore")), ("fill_unpacked_files", S("rFill")),
+                 ("update_tree_attribs", S("rAttribs")), ("describe_tree", S("rDescribe")), ("dump_xattrs", S("rDumpXattrs")),
+                 ("sqfs_dir_tree_destroy|sqfs_drop|sqfs_perror", IGN)],
+    },
+}
+_MAP_RE = {t: {p: [(re.compile("^(?:%s)$" % pat), act) for pat, act in rules] for p, rules in m.items()} for t, m in SITE_MAP.items()}
+
+
+def map_log(tool, st, log):
+    """[(kind, site name | pseudo name | None, caller name, callee name)] for every log entry; kind ∈ site | phase | ignore | args |
+    unlink | unknown"""
+    items, occ, ctr = [], {}, {}
+    for pa, ca in log:
+        parent = st.name(pa)
+        callee = ca if isinstance(ca, str) else st.name(ca)
+        act = None
+        for rx, a in _MAP_RE[tool].get(parent, []):
+            if rx.match(callee):
+                act = a
+                break
+        if act is None:
+            items.append(("unknown", None, parent, callee))
+            continue
+        kind, arg = act
+        if kind == "site":
+            items.append(("site", arg, parent, callee))
+        elif kind == "site2":
+            n = occ.get((parent, callee), 0)
+            occ[(parent, callee)] = n + 1
+            items.append(("site", arg[min(n, 1)] if n < 2 else "%s#%d" % (arg[1], n), parent, callee))
+        elif kind == "idx":
+            name, c, pre = arg
+            v = ctr.get(c, 0)
+            if pre is True:
+                ctr[c] = v + 1
+                i = v
+            elif pre is False:
+                i = v - 1
+            else:
+                i = v                      # belongs to the element whose main call follows
+            items.append(("site", "%s:%d" % (name, i), parent, callee))
+        elif kind == "unlink":
+            items.append(("unlink", callee.split(":")[1], parent, callee))
+        else:
+            items.append((kind, None, parent, callee))
+    return items
+
+
+def fault_position(tool, st, skel_addrs, items, log, report):
+    """(index into the list of *sites* of the site inside which the fault fired | None, description)"""
+    n, stack = report["nsites"], report["stack"]
+    if n is None:
+        return None, "no-stack"
+    deepest = max((i for i, a in enumerate(stack) if a in skel_addrs), default=None)
+    if deepest is None:
+        return None, "before-main"
+    nsite_before = sum(1 for it in items[:n] if it[0] == "site")
+    fn = report.get("fn", "")
+    if deepest + 1 >= len(stack):
+        # in the body of a skeleton function: a libc call made there (chdir / realpath are sites of their own)
+        parent = st.name(stack[deepest])
+        if fn in ("chdir", "realpath") and any(rx.match("@%s:fail" % fn) and a[0] == "site" for rx, a in _MAP_RE[tool].get(parent, [])):
+            return nsite_before, "pseudo:" + fn
+        return None, "body:" + parent
+    if n == 0:
+        return None, "unlogged"
+    last = items[n - 1]
+    pa, ca = log[n - 1]
+    if isinstance(ca, str) or (pa, ca) != (stack[deepest], stack[deepest + 1]):
+        return None, "callee:" + st.name(stack[deepest + 1])
+    if last[0] != "site":
+        return None, "%s:%s" % (last[0], last[3])
+    return nsite_before - 1, "site"
+
+
+def step_function(st, stack):
+    """name used in finding keys: the callee of main the fault lies in (for sqfs_writer_finish: its callee)"""
+    names = [st.name(a) for a in stack]
+    if "main" not in names:
+        return names[0] if names else "?"
+    i = names.index("main")
+    if i + 1 >= len(names):
+        return "main"
+    c = names[i + 1]
+    if c == "sqfs_writer_finish" and i + 2 < len(names):
+        return names[i + 2]
+    return c
+
+
 # ------------------------------------------------------------------------------------------------ cases
-def regular_count(files):
-    return len(files)
-
-
-def tar_entry_count(files):
-    dirs = set()
-    for name, _ in files:
-        parts = name.split("/")[:-1]
-        for i in range(len(parts)):
-            dirs.add("/".join(parts[:i + 1]))
-    return len(dirs) + len(files) + 2
-
-
-def gen_cases(ctx, d, rng, tools, scale=1, jobs="1"):
-    """inputs under d; returns list of Case.  Model configuration: (tool, flags, nfiles, sparseTails)."""
-    d = Path(d)
-    files = file_set(rng, scale)
-    T = d / "tree"
-    make_tree(T, files)
-    make_packfile(T, files)
-    make_tar(d / "in.tar", files)
-    nreg = regular_count(files)
-    sparse = sum(1 for _, b in files if b and (len(b) % BS) and not any(b[len(b) - (len(b) % BS):]))
-    common = ["-b", str(BS), "-j", jobs]
-    cases = [
-        Case("gen-F", "gensquashfs", ["-F", str(T / "pack.txt"), "-D", str(T), "-A", str(T / "xattr.txt"), "-S", str(T / "sort.txt")]
-             + common + ["-e", "@OUT@"], "file", None, model=("gen", "xopde", nreg, sparse)),
-        Case("gen-D", "gensquashfs", ["-D", str(T)] + common + ["@OUT@"], "file", None, model=("gen", "d", nreg, sparse)),
-        Case("t2s", "tar2sqfs", common + ["-e", "@OUT@"], "file", None, stdin=str(d / "in.tar"),
-             model=("t2s", "e", tar_entry_count(files), sparse)),
-    ]
-    # 512 directories + root = 513 inodes: the root's export-table slot is the first one beyond the initial
-    # capacity of 512 entries, so add_export_table_entry has to grow the table inside write_export_table
-    M = d / "many"
-    M.mkdir()
-    (M / "pack.txt").write_text("".join("dir m%04d 0755 0 0\n" % i for i in range(512)))
-    cases.append(Case("gen-many", "gensquashfs", ["-F", str(M / "pack.txt"), "-j", jobs, "-e", "-q", "@OUT@"], "file", None,
-                      model=("gen", "peq", 0, 0)))
-    # an image for the readers, made by the (fault-free) packer built from the same tree
-    img = d / "img.sqfs"
-    r = vlib.sh([str(tools["gensquashfs"]), "-F", str(T / "pack.txt"), "-D", str(T), "-A", str(T / "xattr.txt"), "-b", str(BS), "-j", "1",
-                 "-e", "-q", str(img)], env=ctx.san_env(), timeout=TIMEOUT_ISOLATED, stdout=subprocess.DEVNULL)
-    if r.returncode != 0:
-        raise vlib.CheckFailure("cannot build the reader image: " + r.stderr[-1000:])
-    cases += [
-        Case("s2t", "sqfs2tar", [str(img)], "stdout", None),
-        Case("s2t-gz", "sqfs2tar", ["-c", "gzip", str(img)], "stdout", None),
-        Case("rd-u", "rdsquashfs", ["-u", "/", "-p", "@OUT@", str(img)], "tree", None),
-        Case("rd-c", "rdsquashfs", ["-c", "big1.bin", str(img)], "stdout", None),
-        Case("rd-x", "rdsquashfs", ["-x", "a.txt", str(img)], "stdout", None),
-        Case("rd-d", "rdsquashfs", ["-d", str(img)], "stdout", None),
-    ]
-    return cases
-
-
-# ------------------------------------------------------------------------------------------------ boundary inputs
 def growth_constants():
     """flush / growth thresholds read from the working tree's sources (never hard-coded): an input just beyond each
     of them makes the corresponding flush-in-the-middle or grow-the-array path run, with few calls of its class"""
@@ -336,21 +585,105 @@ def growth_constants():
     }
 
 
+def gen_cases(ctx, d, rng, tools, thorough):
+    """inputs under d; returns list of Case"""
+    d = Path(d)
+    scale = 4 if thorough else 1
+    files = file_set(rng, scale)
+    T = d / "tree"
+    make_tree(T, files)
+    make_packfile(T, files)
+    nreg = len(files)
+    comp = rng.choice(["gzip", "xz", "lz4", "zstd"])
+    selinux = os.path.exists("/usr/include/selinux/selinux.h")
+    common = ["-b", str(BS), "-j", "1"]
+    cases = []
+    # ---- gensquashfs, pack file + every optional input
+    argv = ["-F", str(T / "pack.txt"), "-D", str(T), "-A", str(T / "xattr.txt"), "-S", str(T / "sort.txt")]
+    flags = "xopde"
+    if selinux:
+        argv += ["-s", str(T / "contexts")]
+        flags += "s"
+    cases.append(Case("gen-F", "gensquashfs", argv + common + ["-c", comp, "-e", "@OUT@"], "file",
+                      model=("packer", "gen", flags, nreg, "-"), cut=("tree", str(T))))
+    nscan = count_files(T)              # a directory scan packs every regular file it meets, the option files and the hard link included
+    cases.append(Case("gen-D", "gensquashfs", ["-D", str(T)] + common + ["@OUT@"], "file", model=("packer", "gen", "d", nscan, "-"),
+                      cut=("tree", str(T))))
+    # ---- relative output name × pack directory (the unlink of the cleanup is resolved against the *current* directory)
+    R = d / "rel"
+    sfiles = small_file_set(rng)
+    make_tree(R / "in", sfiles, links=False)
+    make_packfile(R, sfiles, extras=False)
+    (R / "packabs.txt").write_text("".join("file %s 0644 0 0 %s\n" % (n.replace("/", "_"), R / "in" / n) for n, _ in sfiles))
+    (R / "in" / "pack.txt").write_text((R / "pack.txt").read_text())
+    q = [] if rng.random() < 0.5 else ["-q"]
+    qf = "q" if q else ""
+    cases.append(Case("gen-rel", "gensquashfs", ["-F", "pack.txt", "-D", "in", "-b", str(BS), "-j", "1"] + q + ["@OUT@"], "file", cwd=str(R), rel_out=True,
+                      model=("packer", "gen", "pdr" + qf, len(sfiles), "-")))
+    cases.append(Case("gen-rel-scan", "gensquashfs", ["--pack-dir", "in", "-b", str(BS), "-j", "1", "-q", "@OUT@"], "file", cwd=str(R), rel_out=True,
+                      model=("packer", "gen", "drq", len(sfiles) + 1, "-"), plan="sys+sample:60"))
+    cases.append(Case("gen-rel-dot", "gensquashfs", ["-F", "pack.txt", "-D", ".", "-b", str(BS), "-j", "1", "-q", "@OUT@"], "file", cwd=str(R / "in"),
+                      rel_out=True, model=("packer", "gen", "pdcrq", len(sfiles), "-"), plan="sys+sample:60"))
+    cases.append(Case("gen-rel-nodir", "gensquashfs", ["-F", "packabs.txt", "-b", str(BS), "-j", "1", "-q", "@OUT@"], "file", cwd=str(R), rel_out=True,
+                      model=("packer", "gen", "prq", len(sfiles), "-"), plan="sys+sample:60"))
+    # ---- tar2sqfs
+    letters, offs, end = make_tar(d / "in.tar", files)
+    cases.append(Case("t2s", "tar2sqfs", common + ["-c", comp, "-e", "@OUT@"], "file", stdin=str(d / "in.tar"),
+                      model=("packer", "t2s", "e", 0, letters), cut=("tar", offs, end)))
+    letters_r, offs_r, end_r = make_tar(d / "in_r.tar", files, root_prefix="dir1")
+    jt = str(rng.choice([1, 2, 3]))
+    cases.append(Case("t2s-root", "tar2sqfs", ["-b", str(BS), "-j", jt, "-r", "dir1", "-q", "@OUT@"], "file", stdin=str(d / "in_r.tar"),
+                      model=("packer", "t2s", "q", 0, letters_r), cut=("tar", offs_r, end_r), mt=jt != "1"))
+    # ---- 512 directories + root = 513 inodes: the root's export-table slot is the first one beyond the initial
+    # capacity of 512 entries, so add_export_table_entry has to grow the table inside write_export_table
+    M = d / "many"
+    M.mkdir()
+    (M / "pack.txt").write_text("".join("dir m%04d 0755 0 0\n" % i for i in range(512)))
+    cases.append(Case("gen-many", "gensquashfs", ["-F", str(M / "pack.txt"), "-j", "1", "-e", "-q", "@OUT@"], "file",
+                      model=("packer", "gen", "pdeq", 0, "-"), plan="realloc-tail"))
+    # ---- several compressor threads: teardown after a failure in the middle of a run
+    jm = str(rng.choice([2, 3, 4]))
+    cases.append(Case("gen-mt", "gensquashfs", ["-D", str(T), "-b", str(BS), "-j", jm, "-c", comp, "-q", "@OUT@"], "file",
+                      model=("packer", "gen", "dq", nscan, "-"), plan="sample:%d" % (600 if thorough else 140), mt=True))
+    # ---- an image for the readers, made by the (fault-free) packer built from the same tree
+    img = d / "img.sqfs"
+    r = vlib.sh([str(tools["gensquashfs"]), "-F", str(T / "pack.txt"), "-D", str(T), "-A", str(T / "xattr.txt"), "-b", str(BS), "-j", "1",
+                 "-c", comp, "-e", "-q", str(img)], env=ctx.san_env(), timeout=TIMEOUT_ISOLATED, stdout=subprocess.DEVNULL)
+    if r.returncode != 0:
+        raise vlib.CheckFailure("cannot build the reader image: " + r.stderr[-1000:])
+    scomp = rng.choice(["gzip", "xz", "zstd"])
+    catf = rng.choice(["big1.bin", "dir2/incompr.bin", "zero_big"])
+    cases += [
+        Case("s2t", "sqfs2tar", [str(img)], "stdout", model=("reader", "s2t", "-"), cut=("image",)),
+        Case("s2t-c", "sqfs2tar", ["-c", scomp, str(img)], "stdout", model=("reader", "s2t", "c"), cut=("image",)),
+        Case("rd-u", "rdsquashfs", ["-u", "/", "-p", "@OUT@", str(img)], "tree", model=("reader", "rd", "up"), cut=("image",)),
+        Case("rd-ua", "rdsquashfs", ["-u", "/", "-C", "-O", "-T", "-X", "-p", "@OUT@", str(img)], "tree", model=("reader", "rd", "up")),
+        Case("rd-c", "rdsquashfs", ["-c", catf, str(img)], "stdout", model=("reader", "rd", "c"), cut=("image",)),
+        Case("rd-x", "rdsquashfs", ["-x", "a.txt", str(img)], "stdout", model=("reader", "rd", "x")),
+        Case("rd-d", "rdsquashfs", ["-d", str(img)], "stdout", model=("reader", "rd", "d")),
+        Case("rd-s", "rdsquashfs", ["-s", "dir1/big2.bin", str(img)], "stdout", model=("reader", "rd", "s")),
+    ]
+    if thorough:
+        cases.append(Case("s2t-nolinks", "sqfs2tar", ["--no-hard-links", str(img)], "stdout", model=("reader", "s2t", "L"), cut=("image",)))
+        cases.append(Case("rd-l", "rdsquashfs", ["-l", "dir1", str(img)], "stdout", model=("reader", "rd", "l")))
+    return cases
+
+
 def boundary_cases(ctx, d, thorough):
     """gensquashfs inputs sized just beyond the thresholds of growth_constants()"""
     G = growth_constants()
     d = Path(d)
     cases = []
-    # --- metadata: directory table and inode table of several meta blocks, id table / xattr pair array / value string
-    #     table / export table grown beyond their first capacity
+    mb = G["meta_block"]
+    # --- metadata: every table longer than one meta block, so that sqfs_write_table's append flushes *inside* its loop
+    #     (export table 8 B/inode, id table 4 B/id, xattr id table 16 B/set), directory and inode table of several meta
+    #     blocks, id / xattr pair / string / export arrays grown beyond their first capacity
     M = d / "bmeta"
     M.mkdir(parents=True)
     name_len = 40
-    ndirs = max(G["export_init"] + 8,                         # export table: one slot per inode
-                (3 * G["meta_block"]) // (8 + name_len) + 8,  # ≥ 3 directory meta blocks: a non-first, non-last one exists
-                (2 * G["meta_block"]) // 32 + 8)              # ≥ 2 inode meta blocks (a basic directory inode is 32 bytes)
-    nids = G["array_first"] + 3
-    nx = max(G["xattr_pairs"], G["array_first"]) + 3
+    ndirs = max(G["export_init"] + 8, (3 * mb) // (8 + name_len) + 8, (2 * mb) // 32 + 8, mb // 8 + 40, mb // 4 + 20)
+    nids = mb // 4 + 12
+    nx = max(G["xattr_pairs"], G["array_first"], mb // 16) + 9
     lines, xl = [], []
     for i in range(ndirs):
         nm = ("directory_with_a_rather_long_name_%04d" % i).ljust(name_len, "x")
@@ -360,24 +693,26 @@ def boundary_cases(ctx, d, thorough):
     (M / "pack.txt").write_text("\n".join(lines) + "\n")
     (M / "xattr.txt").write_text("\n".join(xl))
     cases.append(Case("b-meta", "gensquashfs", ["-F", str(M / "pack.txt"), "-A", str(M / "xattr.txt"), "-c", "gzip", "-j", "1", "-e", "-q", "@OUT@"],
-                      "file", None, model=("gen", "pxeq", 0, 0)))
-    cases[-1].boundary = True
+                      "file", model=("packer", "gen", "pdxeq", 0, "-"), plan="stratified"))
     # --- data: more blocks than the block writer's initial list (twice: second doubling inside the duplicate), a
     #     multi-block duplicate that is truncated away again, a block list per inode grown up to index ≥ blkwr_init,
-    #     a duplicate tail, more than one fragment block
+    #     a duplicate tail whose fragment block is already on disk (read-back in chunk_info_equals → load_frag_block),
+    #     more than one fragment block
     Dd = d / "bdata"
     Dd.mkdir()
     nblk = G["blkwr_init"] + 2
     big = det_bytes("bdata", nblk * BS + 700)
     (Dd / "a.bin").write_bytes(big)
     (Dd / "b.bin").write_bytes(big)
-    for i in range(6):
+    for i in range(10):
         (Dd / ("t%d" % i)).write_bytes(det_bytes("tail%d" % i, 1000))
+    (Dd / "u0").write_bytes(det_bytes("tail0", 1000))           # same bytes as t0, whose fragment block was written long ago
+    (Dd / "u1").write_bytes(det_bytes("tail5", 1000))
     for p in sorted(Dd.rglob("*")):
         os.utime(p, (1000000000, 1000000000))
-    cases.append(Case("b-data", "gensquashfs", ["-D", str(Dd), "-b", str(BS), "-c", "gzip", "-j", "1", "-q", "@OUT@"], "file", None,
-                      model=("gen", "dq", 8, 0)))
-    cases[-1].boundary = True
+    os.utime(Dd, (1000000000, 1000000000))
+    cases.append(Case("b-data", "gensquashfs", ["-D", str(Dd), "-b", str(BS), "-c", "gzip", "-j", "1", "-q", "@OUT@"], "file",
+                      model=("packer", "gen", "dq", 14, "-"), plan="stratified"))
     if thorough:
         # more fragment blocks than the fragment table's first capacity (two 2100-byte unique tails per 4 KiB block)
         F = d / "bfrag"
@@ -387,10 +722,75 @@ def boundary_cases(ctx, d, thorough):
             (F / ("f%04d" % i)).write_bytes(det_bytes("frag%d" % i, 2100))
         for p in sorted(F.rglob("*")):
             os.utime(p, (1000000000, 1000000000))
-        cases.append(Case("b-frag", "gensquashfs", ["-D", str(F), "-b", str(BS), "-c", "gzip", "-j", "1", "-q", "@OUT@"], "file", None,
-                          model=("gen", "dq", nf, 0)))
-        cases[-1].boundary = True
+        os.utime(F, (1000000000, 1000000000))
+        cases.append(Case("b-frag", "gensquashfs", ["-D", str(F), "-b", str(BS), "-c", "gzip", "-j", "1", "-q", "@OUT@"], "file",
+                          model=("packer", "gen", "dq", nf, "-"), plan="stratified"))
     return cases, G
+
+
+# ------------------------------------------------------------------------------------------------ enumeration plans
+def plan_faults(ctx, case, base):
+    """every position of every class; truncated input (EOF / short read) at every read of the input"""
+    jobs = []
+    cnt = base["report"]["count"]
+    for cls in SYS_CLASSES:
+        for side in ("in", "out"):
+            n = cnt.get((cls, side), 0)
+            for k in range(1, n + 1):
+                kinds = KINDS if cls == "write" else ["EIO"] if cls == "fsop" else ["EIO", "EINTR"]
+                for kind in kinds:
+                    jobs.append({"cls": cls, "k": k, "side": side, "kind": kind})
+    if case.cut is not None:
+        n = cnt.get(("read", "in"), 0)
+        for k in range(1, n + 1):
+            jobs.append({"cls": "read", "k": k, "side": "in", "kind": "EOF"})
+            jobs.append({"cls": "read", "k": k, "side": "in", "kind": "SHORT", "short": ctx.rng.choice([1, 17, 511, 512, 513, 1000, 3000])})
+            if ctx.rng.random() < 0.5:
+                jobs.append({"cls": "read", "k": k, "side": "in", "kind": "SHORT"})
+        if case.cut[0] == "tar":
+            # the archive ends at a structurally interesting place (the first read fills the 128 KiB stream buffer): one of
+            # each kind always, more by the seed
+            first = [x for x in case.cut[2][1] if x[1] < 131072 - 512]
+            pick, seen = [], set()
+            for kind, pos in first:
+                if kind not in seen:
+                    seen.add(kind)
+                    pick.append(pos)
+            rest = [pos for _, pos in first if pos not in pick]
+            ctx.rng.shuffle(rest)
+            for pos in pick + rest[:12 if ctx.quick() else len(rest)]:
+                jobs.append({"cls": "read", "k": 1, "side": "in", "kind": "SHORT", "short": pos})
+    for cls in ALLOC_CLASSES:
+        n = cnt.get((cls, "in"), 0)
+        for k in range(1, n + 1):
+            jobs.append({"cls": cls, "k": k})
+    return jobs
+
+
+def plan_for(ctx, case, base, thorough):
+    plan = case.plan
+    if plan == "stratified":
+        return plan_stratified(ctx, base, thorough)
+    jobs = plan_faults(ctx, case, base)
+    if plan == "full":
+        return jobs
+    if plan == "realloc-tail":
+        n = base["report"]["count"].get(("realloc", "in"), 0)
+        ks = list(range(1, n + 1))
+        if not thorough and n > 200:          # the tail (finish phase) completely, the parsing phase sampled
+            ks = sorted(set(ctx.rng.sample(range(1, n - 63), 100)) | set(range(n - 63, n + 1)))
+        return [{"cls": "realloc", "k": k} for k in ks]
+    m = re.match(r"(sys\+)?sample:(\d+)$", plan)
+    if not m:
+        raise Infra("unknown plan " + plan)
+    n = int(m.group(2)) * (4 if thorough else 1)
+    if m.group(1):
+        keep = [j for j in jobs if j["cls"] in SYS_CLASSES and j.get("kind") in ("EIO", "ENOSPC")]
+        rest = [j for j in jobs if j not in keep]
+    else:
+        keep, rest = [], jobs
+    ctx.rng.shuffle(rest)
+    return keep + rest[:n]
 
 
 def plan_stratified(ctx, base, thorough):
@@ -398,7 +798,8 @@ def plan_stratified(ctx, base, thorough):
     allocation classes stratified by call site (hash of the six innermost return addresses, from the counting run's
     trace): every position of a site with few calls, first / last / spread sample of the mass sites"""
     lim = {"realloc": 64 if thorough else 12, "malloc": 16 if thorough else 3, "calloc": 16 if thorough else 3, "strdup": 8 if thorough else 2,
-           "write": 10 ** 9, "trunc": 10 ** 9, "read": 64 if thorough else 12, "lseek": 8, "fsync": 8, "close": 4, "open": 8 if thorough else 3}
+           "write": 10 ** 9, "trunc": 10 ** 9, "read": 64 if thorough else 12, "lseek": 8, "fsync": 8, "close": 4, "open": 8 if thorough else 3,
+           "fsop": 4}
     jobs = []
     for (cls, side, h), ks in sorted(base["trace"].items()):
         if cls in SYS_CLASSES and side != "out" and cls != "open":
@@ -421,83 +822,10 @@ def plan_stratified(ctx, base, thorough):
     return jobs
 
 
-# ------------------------------------------------------------------------------------------------ fault → model site
+# ------------------------------------------------------------------------------------------------ oracle
 FIN_MSGS = [("Waiting for remaining data blocks...", "waiting"), ("Writing inodes and directories...", "inodes"),
             ("Writing fragment table...", "fragtbl"), ("Writing export table...", "exporttbl"),
             ("Writing ID table...", "idtbl"), ("Writing extended attributes...", "xattrs")]
-INIT_CALLEES = {"compressor_cfg_init_options": "compCfg", "sqfs_file_open": "openOut", "parse_fstree_defaults": "fsDefaults",
-                "fstree_init": "fstreeInit", "sqfs_compressor_create": "cmpCreate", "sqfs_super_init": "superInit",
-                "sqfs_super_write": "superWrite", "sqfs_generic_write_options": "cmpOptions", "sqfs_block_writer_create": "blkwrCreate",
-                "sqfs_frag_table_create": "fragtblCreate", "sqfs_block_processor_create_ex": "procCreate",
-                "sqfs_id_table_create": "idtblCreate", "sqfs_xattr_writer_create": "xwrCreate", "sqfs_meta_writer_create": "imCreate",
-                "sqfs_dir_writer_create": "dirwrCreate"}
-FINISH_CALLEES = {"sqfs_block_processor_finish": "procFinish", "sqfs_serialize_fstree": "serialize", "sqfs_frag_table_write": "fragTable",
-                  "sqfs_dir_writer_write_export_table": "exportWrite", "sqfs_id_table_write": "idTable",
-                  "sqfs_xattr_writer_flush": "xattrFlush", "sqfs_super_write": "superRewrite", "padd_sqfs": "pad"}
-GEN_MAIN_CALLEES = {"selinux_open_context_file": "selinuxOpen", "xattr_open_map_file": "xattrMapOpen", "sqfs_istream_open_file": "sortfileOpen",
-                    "dir_tree_iterator_create": "dirIterCreate", "scan_directory": "scanDir", "fstree_from_file": "fstreeFromFile",
-                    "fstree_post_process": "postProcess", "apply_xattrs": "applyXattrs", "fstree_sort_files": "sortFiles"}
-T2S_MAIN_CALLEES = {"istream_open_stdin": "openStdin", "tar_open_stream": "tarOpen", "fstree_post_process": "postProcess"}
-SHIM_FN = re.compile(r"^(vf_|__wrap_|__interceptor|backtrace|__sanitizer)")
-
-
-def project_frames(frames):
-    return [(fn, loc) for fn, loc in frames if fn != "??" and not SHIM_FN.match(fn) and "shim_fault" not in loc]
-
-
-def locate(case, frames, stdout):
-    """(model site or None, step function used in finding keys)"""
-    fr = project_frames(frames)
-    fns = [f for f, _ in fr]
-
-    def callee(of):
-        i = fns.index(of)
-        return fns[i - 1] if i > 0 else of
-
-    def inner_match(table, upto):
-        # innermost-first scan of the frames below `upto` for a function of the table
-        i = fns.index(upto)
-        for f in reversed(fns[:i]):
-            if f in table:
-                return table[f]
-        return None
-    if not fns:
-        return None, "?"
-    if case.tool not in ("gensquashfs", "tar2sqfs"):
-        return None, (callee("main") if "main" in fns else fns[0])
-    if "sqfs_writer_cfg_init" in fns or "process_command_line" in fns or "process_args" in fns:
-        return None, callee("sqfs_writer_cfg_init") if "sqfs_writer_cfg_init" in fns else fns[0]
-    npack = len([l for l in stdout.splitlines() if l.startswith("packing ") or l.startswith("Packing ") or l.startswith("Hard link ")])
-    nmodel = case.model[2]
-    if "sqfs_writer_init" in fns:
-        if "sqfs_file_open_handle" in fns:
-            return "openHandle", "sqfs_writer_init"
-        return inner_match(INIT_CALLEES, "sqfs_writer_init") or ("cmpOptions" if any(f.endswith("_write_options") for f in fns) else None), "sqfs_writer_init"
-    if "sqfs_writer_finish" in fns:
-        if "set_block_size" in fns and "process_completed_fragment" in fns:
-            return "sparseTail:0", "process_completed_fragment"
-        if "add_export_table_entry" in fns and "sqfs_dir_writer_write_export_table" in fns:
-            return "exportAddRoot", "sqfs_dir_writer_write_export_table"
-        return inner_match(FINISH_CALLEES, "sqfs_writer_finish"), callee("sqfs_writer_finish")
-    if "sqfs_writer_cleanup" in fns:
-        return None, "sqfs_writer_cleanup"
-    if "set_block_size" in fns and "process_completed_fragment" in fns:
-        return "sparseTail:0", "process_completed_fragment"
-    if case.tool == "gensquashfs":
-        if "pack_files" in fns or "pack_file" in fns:
-            return "packFile:%d" % max(0, min(npack - 1, nmodel - 1)), "pack_files"
-        if "main" in fns:
-            return inner_match(GEN_MAIN_CALLEES, "main"), callee("main")
-    else:
-        if "process_tarball" in fns:
-            inner = any(f in fns for f in ("create_node_and_repack_data", "set_root_attribs", "write_file", "copy_xattr"))
-            i = fns.index("process_tarball")
-            rl = i > 0 and fns[i - 1] in ("it_read_link", "read_link")
-            idx = max(0, min(npack, nmodel - 1))
-            return ("tarEntry:%d" % idx) if (inner or rl) else ("tarNext:%d" % idx), "process_tarball"
-        if "main" in fns:
-            return inner_match(T2S_MAIN_CALLEES, "main"), callee("main")
-    return None, fns[0]
 
 
 def real_msgs(stdout):
@@ -510,11 +838,13 @@ def real_msgs(stdout):
 
 
 def parse_model(line):
+    if line == "bad-op" or "=" not in line:
+        raise Infra("model driver answered %r" % line)
     return dict(kv.split("=", 1) for kv in line.split())
 
 
 def verdict_py(o):
-    """mirror of Sqfs.FailStop.Spec.verdict (cross-checked against the Lean definition on every observation)"""
+    """mirror of Sqfs.FailStop.Spec.verdict (cross-checked against the Lean definition on every distinct observation)"""
     if o["crashed"]:
         return "crash"
     if o["exit0"]:
@@ -526,61 +856,344 @@ def verdict_py(o):
     return "ok"
 
 
-def observe(case, base, r):
+def observe(case, base, r, same=None):
     packer = case.out_kind == "file"
     crashed = r["timeout"] or r["rc"] < 0 or r["rc"] >= 90
     return {"crashed": crashed, "exit0": r["rc"] == 0, "diag": bool(r["stderr"].strip()), "packer": packer,
-            "left": packer and r["out"] != "absent", "same": r["out"] == base["out"]}
+            "left": packer and r["out"] != "absent", "same": (r["out"] == base["out"]) if same is None else same}
 
 
 def cls_group(cls):
     return "alloc" if cls in ALLOC_CLASSES else cls
 
 
-# ------------------------------------------------------------------------------------------------ enumeration
-def plan_faults(ctx, case, base, exhaustive, sample_n):
-    jobs = []
-    for cls in SYS_CLASSES:
-        for side in ("in", "out"):
-            n = base["report"]["count"].get((cls, side), 0)
-            for k in range(1, n + 1):
-                kinds = KINDS if cls == "write" else ["EIO", "EINTR"]
-                for kind in kinds:
-                    jobs.append({"cls": cls, "k": k, "side": side, "kind": kind})
-    for cls in ALLOC_CLASSES:
-        n = base["report"]["count"].get((cls, "in"), 0)
-        for k in range(1, n + 1):
-            jobs.append({"cls": cls, "k": k})
-    if not exhaustive and len(jobs) > sample_n:
-        # keep every syscall position with kind EIO, sample the rest
-        keep = [j for j in jobs if j.get("kind") == "EIO"]
-        rest = [j for j in jobs if j.get("kind") != "EIO"]
-        ctx.rng.shuffle(rest)
-        jobs = keep + rest[:max(0, sample_n - len(keep))]
-    return jobs
+def count_files(root):
+    """regular files a directory scan packs: one per inode (further names of the same inode become hard links)"""
+    return len({(p.lstat().st_dev, p.lstat().st_ino) for p in Path(root).rglob("*") if p.is_file() and not p.is_symlink()})
+
+
+class Dedup:
+    """one VIOLATION / KNOWN-FINDING per key and run; further hits of the same key are counted"""
+
+    def __init__(self, ctx):
+        self.ctx, self.count = ctx, {}
+
+    def __call__(self, key, what, replay, found_input=True):
+        self.count[key] = self.count.get(key, 0) + 1
+        if self.count[key] == 1:
+            self.ctx.violation(key, what, replay, found_input)
+
+
+def driver_lines(ctx, lines):
+    """one answer per query, or the check's machinery is broken"""
+    if not lines:
+        return []
+    out = ctx.driver(["c13"], "\n".join(lines) + "\n")
+    if len(out) != len(lines):
+        raise Infra("model driver answered %d lines to %d queries" % (len(out), len(lines)))
+    return out
+
+
+def model_cfg(case, base_items):
+    """driver arguments describing the case; the per-input counts of the readers come from the fault-free run"""
+    m = case.model
+    if m[0] == "packer":
+        return "run %%s %s %s %d %s" % (m[1], m[2], m[3], m[4]), True
+    names = [it[1] for it in base_items if it[0] == "site"]
+    if m[1] == "s2t":
+        n = sum(1 for x in names if x.startswith("sEntry:"))
+    else:
+        n = sum(1 for x in names if x.startswith("rSplice:"))
+    return "rrun %s %s %d" % (m[1], m[2], n), False
+
+
+# ------------------------------------------------------------------------------------------------ truncated input: the reference
+class CutRef:
+    """what the tool makes of the input as it appears after the cut (same bytes, genuinely shorter file)"""
+
+    def __init__(self, ctx, case, exe, skel, env, work):
+        self.ctx, self.case, self.exe, self.skel, self.env, self.work = ctx, case, exe, skel, env, work
+        self.cache = {}
+
+    def get(self, path, off):
+        key = (path, off)
+        if key in self.cache:
+            return self.cache[key]
+        c, ref = self.case, None
+        d = self.work / ("cut_%d" % len(self.cache))
+        if c.cut[0] == "tar" and c.stdin and os.path.realpath(path) == os.path.realpath(c.stdin):
+            d.mkdir(parents=True)
+            (d / "in.tar").write_bytes(Path(c.stdin).read_bytes()[:off])
+            ref = run_case(c, self.exe, d / "w", self.skel, None, env_base=self.env, timeout=TIMEOUT_ISOLATED, stdin_override=str(d / "in.tar"))
+        elif c.cut[0] == "tree" and os.path.realpath(path).startswith(os.path.realpath(c.cut[1]) + "/"):
+            root = Path(os.path.realpath(c.cut[1]))
+            rel = Path(os.path.realpath(path)).relative_to(root)
+            shutil.copytree(root, d / "t", symlinks=True, copy_function=os.link)     # hard links: same inodes, link structure kept
+            st0 = (root / rel).lstat()
+            same = [p.relative_to(root) for p in root.rglob("*") if not p.is_symlink() and p.is_file() and p.lstat().st_ino == st0.st_ino]
+            new = d / "cutfile"
+            new.write_bytes((root / rel).read_bytes()[:off])
+            os.utime(new, ns=(st0.st_atime_ns, st0.st_mtime_ns))
+            for q_ in same:                               # every name of the file that was cut
+                (d / "t" / q_).unlink()
+                os.link(new, d / "t" / q_)
+            for q_ in {x.parent for x in same}:           # directory time stamps as in the original
+                st_ = (root / q_).lstat()
+                os.utime(d / "t" / q_, ns=(st_.st_atime_ns, st_.st_mtime_ns))
+            ref = run_case(c, self.exe, d / "w", self.skel, None, env_base=self.env, timeout=TIMEOUT_ISOLATED, argv_subst={str(c.cut[1]): str(d / "t")})
+        shutil.rmtree(d, ignore_errors=True)
+        self.cache[key] = ref
+        return ref
+
+
+def judge_cut(case, base, r, cutref):
+    """(same, note): is the output of a run on truncated input acceptable if it exits 0?"""
+    cut = r["report"]["cut"]
+    if r["rc"] != 0 or r["out"] == base["out"]:
+        return r["out"] == base["out"], "-"
+    if cut is None:
+        return False, "no-cut-report"
+    path, off = cut
+    if case.cut[0] == "image":
+        return False, "image"                # a shortened image never legitimately reads as something else
+    if case.cut[0] == "tar":
+        bounds, end = case.cut[1], case.cut[2][0]
+        if off < end and off not in bounds:
+            return False, "mid-record"       # the archive ends inside a header or inside file data: must be reported
+    ref = cutref.get(path, off)
+    if ref is None:
+        return False, "no-reference"
+    return (ref["rc"] == 0 and ref["out"] == r["out"]), "reference rc=%d" % ref["rc"]
+
+
+# ------------------------------------------------------------------------------------------------ one case
+WHAT = {"crash": "crashes / hangs / sanitizer report", "exit0-different-output": "exits 0 with an output that differs from the fault-free run",
+        "failure-output-left": "fails but leaves its partial output file behind", "failure-no-diagnostic": "fails without any diagnostic on stderr"}
+
+
+def process_case(ctx, case, tools, syms, skels, env, work, report, stats, thorough, nworkers, acc):
+    exe, st, skel = tools[case.tool], syms[case.tool], skels[case.tool]
+    skel_addrs = {int(x, 16) for x in skel.split(",")}
+    base = run_case(case, exe, work / "base", skel, None, env_base=env, timeout=TIMEOUT_ISOLATED, trace=case.plan == "stratified")
+    if base["rc"] != 0 or base["out"] == "absent":
+        report("base:" + case.name, "fault-free run of %s fails: rc=%s %s" % (case.name, base["rc"], base["stderr"][-300:]),
+               {"case": case.name, "argv": case.argv}, found_input=False)
+        return
+    if not base["report"]["present"] or not base["sites_ok"] or not base["sites"]:
+        raise Infra("fault-free run of %s produced no report / no complete call log" % case.name)
+    base2 = run_case(case, exe, work / "base2", skel, None, env_base=env, timeout=TIMEOUT_ISOLATED)
+    if base2["out"] != base["out"]:
+        report("nondet:" + case.name, "two fault-free runs of %s differ" % case.name, {"case": case.name}, found_input=False)
+        return
+    items_b = map_log(case.tool, st, base["sites"])
+
+    def unknowns(items, replay):
+        bad = sorted({(it[2], it[3]) for it in items if it[0] == "unknown"})
+        for parent, callee in bad:
+            report("corr:unknown-call:%s:%s->%s" % (case.tool, parent, callee),
+                   "%s calls %s, which the model of %s does not know (neither a site nor a listed helper): the skeleton changed"
+                   % (parent, callee, case.tool), replay, found_input=False)
+        return bool(bad)
+    model_ok = not unknowns(items_b, {"case": case.name, "argv": case.argv})
+    real_ff = [it[1] for it in items_b if it[0] == "site"]
+    if [it for it in items_b if it[0] == "unlink"]:
+        model_ok = False
+        report("corr:faultfree-unlink:" + case.name, "the fault-free run of %s calls unlink on its output" % case.name, {"case": case.name}, found_input=False)
+    qfmt, packer = model_cfg(case, items_b)
+    variants = ["cur", "fix"] if packer else [None]
+
+    def q(v, faults):
+        return (qfmt % v if packer else qfmt) + " " + faults
+    ff = [parse_model(x) for x in driver_lines(ctx, [q(v, "-") for v in variants])]
+    tree_variant, model_ff = None, None
+    for v, m in zip(variants, ff):
+        if m["ran"] == (",".join(real_ff) or "-") and m["status"] == "0" and (not packer or m["msgs"] == real_msgs(base["stdout"])):
+            tree_variant = v or "rd"
+            model_ff = m
+            break
+    if tree_variant is None:
+        model_ok = False
+        mm = ff[0]["ran"].split(",")
+        i = next((i for i, (a, b) in enumerate(zip(mm, real_ff)) if a != b), min(len(mm), len(real_ff)))
+        report("corr:faultfree:" + case.name,
+               "fault-free call sequence of %s differs from the model's program at position %d: real %s, model %s (real msgs %s, model msgs %s)"
+               % (case.name, i, real_ff[i:i + 3], mm[i:i + 3], real_msgs(base["stdout"]), ff[0].get("msgs")),
+               {"case": case.name, "argv": case.argv, "real": real_ff, "model": mm}, found_input=False)
+    acc["tree_variant"].setdefault(tree_variant, []).append(case.name)
+    # from here on the model of the source the tree turned out to be: /repo as it is, or the repaired one
+    variants = [tree_variant if packer else None]
+    jobs = plan_for(ctx, case, base, thorough)
+    if not jobs:
+        raise Infra("no fault position planned for %s (counting run reported nothing)" % case.name)
+    cutref = CutRef(ctx, case, exe, skel, env, work) if case.cut else None
+
+    def one(i):
+        return jobs[i], run_case(case, exe, work / ("%s_%d" % (case.name, i)), skel, jobs[i], env_base=env)
+    with concurrent.futures.ThreadPoolExecutor(nworkers) as ex:
+        results = list(ex.map(one, range(len(jobs))))
+    if len(results) != len(jobs):
+        raise Infra("lost results for %s" % case.name)
+    for i, (f, r) in enumerate(results):
+        if r["timeout"]:
+            # a timeout under load is not a hang: repeat the one case alone with a much longer limit
+            stats["timeouts_rerun"] = stats.get("timeouts_rerun", 0) + 1
+            results[i] = (f, run_case(case, exe, work / ("%s_iso" % case.name), skel, f, env_base=env, timeout=TIMEOUT_ISOLATED))
+    cstat = stats["by_case"].setdefault(case.name, {"faults": len(jobs), "fired": 0, "verdicts": {}, "model_compared": 0})
+    pending, queries = [], []
+    for f, r in results:
+        stats["runs"] += 1
+        rep = r["report"]
+        if not rep["present"] and not r["timeout"]:
+            report("infra:noreport:" + case.name, "run of %s with fault %s left no report" % (case.name, f), {"case": case.name, "fault": f}, found_input=False)
+            continue
+        if not rep["fired"] and not r["timeout"]:
+            if case.mt and r["rc"] == 0 and r["out"] == base["out"]:
+                stats["mt_not_reached"] = stats.get("mt_not_reached", 0) + 1     # allocation counts depend on thread timing
+                continue
+            report("infra:notfired:%s:%s" % (case.name, f["cls"]), "fault %s did not fire in %s" % (f, case.name), {"case": case.name, "fault": f}, found_input=False)
+            continue
+        stats["fired"] += 1
+        cstat["fired"] += 1
+        is_cut = f.get("kind") in CUT_KINDS
+        same, cutnote = judge_cut(case, base, r, cutref) if is_cut else (None, "-")
+        o = observe(case, base, r, same)
+        v = verdict_py(o)
+        acc["monitor"].add(("monitor %d %d %d %d %d %d" % tuple(int(o[k]) for k in ("crashed", "exit0", "diag", "packer", "left", "same")), v))
+        frames = project_frames(resolve_bt(exe, rep["bt"]))
+        inner = frames[0][0] if frames else "?"
+        acc["distinct"].add((case.tool, cls_group(f["cls"]), inner, frames[1][0] if len(frames) > 1 else ""))
+        tag = v if v != "ok" else ("ok-same" if o["exit0"] and r["out"] == base["out"] else "ok-shorter-input" if o["exit0"] else "ok-failed-clean")
+        for dct in (stats["verdicts"], cstat["verdicts"]):
+            dct[tag] = dct.get(tag, 0) + 1
+        if is_cut:
+            stats["cut"][tag] = stats["cut"].get(tag, 0) + 1
+        items = map_log(case.tool, st, r["sites"])
+        real_ran = [it[1] for it in items if it[0] == "site"]
+        unl = [it[1] for it in items if it[0] == "unlink"]
+        stepfn = step_function(st, rep["stack"]) if rep["stack"] else (inner if inner != "?" else "?")
+        replay = {"case": case.name, "fault": f, "input_seed": ctx.seed, "tier": ctx.tier, "rc": r["rc"], "verdict": v, "cut": cutnote,
+                  "backtrace": ["%s@%s" % x for x in frames[:8]], "stderr": r["stderr"][-600:], "sites_run": real_ran[-4:], "unlink": unl}
+        key = "%s:%s:%s@%s" % (case.tool, cls_group(f["cls"]), v, stepfn)
+        if v == "failure-output-left" and unl and unl[-1] == "miss":
+            # the cleanup did call unlink, but the name it used does not designate the output file from where the process is
+            key = "%s:failure-output-left:unlink-misses-relative-name" % case.tool
+        if is_cut and v != "ok":
+            # where the read that met the end happened says nothing; what the tool made of the shortened input does
+            key = "%s:truncated-input:%s:%s" % (case.tool, v, cutnote.split()[0])
+        if len(acc["samples"]) < 12 and (v != "ok" or stats["runs"] % 211 == 0):
+            acc["samples"].append({"case": case.name, "fault": f, "verdict": v, "rc": r["rc"], "failing_site": real_ran[-1] if real_ran and not o["exit0"] else None,
+                                   "innermost": inner, "stderr": r["stderr"].strip()[-160:]})
+        if case.out_kind == "file" and not o["exit0"] and f.get("kind") != "EINTR":
+            pw = str(rep.get("post", 0))
+            stats["post_fault_output_writes"][pw] = stats["post_fault_output_writes"].get(pw, 0) + 1
+        ent = {"f": f, "r": r, "o": o, "v": v, "key": key, "replay": replay, "ran": real_ran, "unl": unl, "q": None, "pos": None, "where": "-"}
+        pending.append(ent)
+        if o["crashed"] or not model_ok:
+            continue
+        if not r["sites_ok"]:
+            report("infra:nositelog:" + case.name, "run of %s with fault %s exited %d without a complete call log" % (case.name, f, r["rc"]), replay, found_input=False)
+            continue
+        if unknowns(items, replay):
+            continue
+        ent["pos"], ent["where"] = fault_position(case.tool, st, skel_addrs, items, r["sites"], rep)
+        if ent["pos"] is None:
+            stats["outside_model"][ent["where"].split(":")[0]] = stats["outside_model"].get(ent["where"].split(":")[0], 0) + 1
+        if o["exit0"]:
+            ent["q"] = "ff"
+        elif real_ran:
+            ent["q"] = len(queries)
+            queries += [q(vv, "@%d" % (len(real_ran) - 1)) for vv in variants]
+        else:
+            stats["outside_model"]["before-first-site"] = stats["outside_model"].get("before-first-site", 0) + 1
+    answers = driver_lines(ctx, queries)
+    for ent in pending:
+        f, r, o, v, key, replay = ent["f"], ent["r"], ent["o"], ent["v"], ent["key"], ent["replay"]
+        if ent["q"] == "ff":
+            if r["out"] == base["out"]:
+                stats["tolerated"] += 1
+                if ",".join(ent["ran"]) != model_ff["ran"] or (packer and real_msgs(r["stdout"]) != model_ff["msgs"]) or ent["unl"]:
+                    acc["corr_bad"] += 1
+                    report("corr:exit0-trace:" + key, "exit 0 with the fault-free output, but the calls made differ from the model's fault-free program", replay, found_input=False)
+            else:
+                stats["cut_accepted" if v == "ok" else "exit0_different"] = stats.get("cut_accepted" if v == "ok" else "exit0_different", 0) + 1
+        elif ent["q"] is not None:
+            stats["model_compared"] += 1
+            cstat["model_compared"] += 1
+            ms = [parse_model(answers[ent["q"] + j]) for j in range(len(variants))]
+            k = len(ent["ran"]) - 1
+            kind = ent["ran"][k].split(":")[0]
+            acc["sites_failed"][kind] = acc["sites_failed"].get(kind, 0) + 1
+
+            def agrees(m):
+                if m["status"] != "1" or m["ran"] != ",".join(ent["ran"]):
+                    return False
+                if (m["diag"] == "1") != o["diag"]:
+                    return False
+                if packer:
+                    if (m["out"] == "present") != o["left"] or m["msgs"] != real_msgs(r["stdout"]):
+                        return False
+                    if m["unlink"] != (ent["unl"][-1] if ent["unl"] else "none") or len(ent["unl"]) > 1:
+                        return False
+                return True
+            if agrees(ms[0]):
+                if packer and ms[0]["out"] == "present":
+                    acc["model_predicts_output_left"] += 1     # the defect the model of the unrepaired source knows (Witness.C13); the oracle flags it below
+            else:
+                acc["corr_bad"] += 1
+                report("corr:" + key, "a fault in %s (call #%d of class %s): the run differs from the model — real: last sites %s, left=%s diag=%s unlink=%s msgs=%s; "
+                       "model: %s" % (ent["ran"][k], f["k"], f["cls"], ent["ran"][-3:], o["left"], o["diag"], ent["unl"], real_msgs(r["stdout"]),
+                                      " | ".join("ran=..%s out=%s diag=%s unlink=%s msgs=%s" % (",".join(m["ran"].split(",")[-3:]), m.get("out"), m["diag"], m.get("unlink"), m.get("msgs")) for m in ms)),
+                       dict(replay, real_ran=ent["ran"], model=[answers[ent["q"] + j] for j in range(len(variants))]), found_input=False)
+            # first_failure_stops, evaluated on the implementation: the site in which the fault fired is the last one executed
+            if ent["pos"] is not None and f.get("kind") not in ("EINTR", "EOF", "SHORT") and r["report"]["thread"] == 1 and ent["pos"] != k:
+                acc["corr_bad"] += 1
+                report("corr:late-failure:" + key, "the fault fired in site #%d (%s) but the run went on to site #%d (%s) before it failed"
+                       % (ent["pos"], ent["ran"][ent["pos"]] if ent["pos"] < len(ent["ran"]) else "?", k, ent["ran"][k]), replay, found_input=False)
+        if v != "ok" and key.endswith(":unlink-misses-relative-name"):
+            report(key, "%s fails (here: %s call #%d in %s) but leaves its partial output file behind: pack_files() has changed into the pack directory and "
+                        "sqfs_writer_cleanup() unlinks the *relative* output name from there" % (case.tool, f["cls"], f["k"], ent["ran"][-1] if ent["ran"] else "?"), replay)
+        elif v != "ok" and ":truncated-input:" in key:
+            report(key, "%s %s when its input ends early (%s; the input appears to be %s bytes long)"
+                   % (case.tool, WHAT[v], replay["cut"], r["report"]["cut"][1] if r["report"]["cut"] else "?"), replay)
+        elif v != "ok":
+            report(key, "%s %s when the %s call #%d (%s) fails in %s [%s]" % (case.tool, WHAT[v], f["cls"], f["k"], f.get("kind", "NULL"), key.split("@")[-1] if "@" in key else "cleanup",
+                                                                                " <- ".join(x.split("@")[0] for x in replay["backtrace"][:4])), replay)
+    if cstat["fired"] == 0:
+        raise Infra("no fault fired in %s" % case.name)
 
 
 # ------------------------------------------------------------------------------------------------ layer 2: block processor API
 BP_FIXED_SESSIONS = [
-    # (file list) each file: (with inode, dont_fragment, units, class)   class: z zero | u unique | s shared
+    # (file list) each file: (with inode, dont_fragment, units, class[, dont_deduplicate])   class: z zero | u unique | s shared
     [(1, 0, 10, "u"), (1, 0, 3, "z"), (1, 0, 10, "u")],
     [(1, 0, 3, "s"), (1, 0, 3, "s"), (1, 0, 2, "u"), (1, 0, 2, "u"), (1, 0, 1, "u")],       # duplicate fragment, fragment block overflow
     [(1, 0, 9, "z"), (1, 1, 6, "u"), (1, 0, 4, "u"), (1, 0, 0, "u")],                       # sparse blocks + tail, dont_fragment, exact block, empty
     [(1, 0, 9, "s"), (1, 0, 9, "s"), (0, 0, 5, "u")],                                        # duplicate blocks (block writer dedup), no inode
     [(1, 0, 1, "z"), (1, 0, 21, "u"), (1, 0, 2, "z")],                                       # inode growth at index 0 and 4
+    [(1, 0, 9, "s"), (1, 0, 9, "s", 1), (1, 0, 9, "s")],                                     # SQFS_BLK_DONT_DEDUPLICATE in the middle
+    [(1, 0, 3, "s"), (1, 0, 3, "u"), (1, 0, 3, "u"), (1, 0, 3, "u"), (1, 0, 2, "u"), (1, 0, 3, "s")],   # duplicate of a fragment whose block was written: read-back
 ]
 
 
 def bp_tokens(files, sync_after=()):
-    real, model, seen = [], [], set()
-    for idx, (i, d, n, c) in enumerate(files):
-        real.append("B%d%d" % (i, d))
-        model.append("B%d%d" % (i, d))
+    """tokens for the harness and for the model.  Model-only inputs: is a tail a duplicate of an earlier one, do the data
+    blocks of a file repeat those of an earlier file (both follow from the content classes)"""
+    real, model, seen_tail, seen_blocks = [], [], set(), set()
+    for idx, fl in enumerate(files):
+        i, d, n, c = fl[:4]
+        nd = fl[4] if len(fl) > 4 else 0
+        full = n // 4 + (1 if (d and n % 4) else 0)
+        dupb = c == "s" and n >= 4 and (n, d) in seen_blocks
+        real.append("B%d%d%d" % (i, d, nd))
+        model.append("B%d%d%d%d" % (i, d, nd, 1 if dupb else 0))
         if n > 0:
             tail = n % 4
-            dup = c == "s" and tail != 0 and not d and (n, "s") in seen
+            dup = c == "s" and tail != 0 and not d and n in seen_tail
             if c == "s":
-                seen.add((n, "s"))
+                if tail != 0 and not d:
+                    seen_tail.add(n)
+                if full:
+                    seen_blocks.add((n, d))
             real.append("A%d:%s" % (n, c))
             model.append("A%d:%d%d" % (n, 1 if c == "z" else 0, 1 if dup else 0))
         real.append("E")
@@ -603,8 +1216,14 @@ def bp_kind(fns):
         return ["htInsert"] if any(f.startswith("hash_table_insert") for f in fns) else ["fragLookup"]
     if any(f.startswith("hash_table_insert") or f == "hash_table_rehash" for f in fns):
         return ["htInsert"]
-    if "write_data_block" in fns or "deduplicate_blocks" in fns:
-        return ["writeBlock"]
+    if "store_block_location" in fns:
+        return ["storeLocation"]
+    if "check_file_range_equal" in fns:
+        return ["dedupRead"]
+    if "deduplicate_blocks" in fns:
+        return ["dedupTruncate"]
+    if "write_data_block" in fns:
+        return ["writeAt"]
     if "sqfs_frag_table_set" in fns:
         return ["fragTableSet"]
     if "sqfs_frag_table_append" in fns:
@@ -622,17 +1241,25 @@ def bp_kind(fns):
     return None
 
 
-def bp_phase(ctx, report, stats, nworkers, env):
+def bp_build(ctx):
     shim = ctx.scratch / "shim_fault.o"
     lib = ctx.build_lib("fault", ALLOC_DEFS)
     ld = ["-no-pie", "-Wl," + ",".join("--wrap=" + x for x in WRAP_SYMS)]
-    exe = ctx.cc("h_c13_bp", ["h_c13_bp.c"], flags=["-fno-pie"], libs=[str(shim), str(lib)] + vlib.CODEC_LIBS + ld)
+    return ctx.cc("h_c13_bp", ["h_c13_bp.c"], flags=["-fno-pie"], libs=[str(shim), str(lib)] + vlib.CODEC_LIBS + ld)
+
+
+def bp_phase(ctx, report, stats, nworkers, env, acc):
+    exe = bp_build(ctx)
     sessions = list(BP_FIXED_SESSIONS)
-    nrand = 3 if ctx.quick() else 12
+    nrand = 4 if ctx.quick() else 16
     for _ in range(nrand):
         k = ctx.rng.randint(2, 6)
-        sessions.append([(1 if ctx.rng.random() < 0.9 else 0, 1 if ctx.rng.random() < 0.2 else 0, ctx.rng.choice([0, 1, 2, 3, 4, 5, 7, 8, 9, 13, 17]),
-                          ctx.rng.choice("uuzs")) for _ in range(k)])
+        ses = []
+        for _ in range(k):
+            c = ctx.rng.choice("uuzs")
+            ses.append((1 if ctx.rng.random() < 0.9 else 0, 0 if c == "s" else (1 if ctx.rng.random() < 0.2 else 0),
+                        ctx.rng.choice([0, 1, 2, 3, 4, 5, 7, 8, 9, 13, 17]), c, 1 if ctx.rng.random() < 0.15 else 0))
+        sessions.append(ses)
     bstat = stats.setdefault("blockproc", {"sessions": len(sessions), "runs": 0, "fired_in_call": 0, "kinds": {}, "unreported": 0, "model_compared": 0})
     work = ctx.scratch / "bp"
     work.mkdir()
@@ -649,26 +1276,23 @@ def bp_phase(ctx, report, stats, nworkers, env):
             rc, so, se = p.returncode, p.stdout.decode(), p.stderr.decode("utf-8", "replace")
         except subprocess.TimeoutExpired:
             rc, so, se = 124, "", "timeout"
-        counts, bt, fired = {}, [], False
+        rp = parse_report(rep)
+        counts = {}
+        for (c, _side), n in rp["count"].items():
+            counts[c] = counts.get(c, 0) + n
         if rep.exists():
-            for l in rep.read_text().splitlines():
-                w = l.split()
-                if w[0] == "count":
-                    counts[w[1]] = counts.get(w[1], 0) + int(w[3])
-                elif w[0] == "fired":
-                    fired = w[1] == "1"
-                elif w[0] == "bt":
-                    bt = w[1:]
             rep.unlink()
         if out.exists():
             out.unlink()
-        return rc, so.strip(), se, counts, bt, fired
+        return rc, so.strip(), se, counts, rp["bt"], rp["fired"], rp["present"]
     for si, files in enumerate(sessions):
         sync_after = {1} if si % 2 else set()
         real, model = bp_tokens(files, sync_after)
         line = " ".join(real)
-        rc, so, se, counts, _, _ = run_bp("base%d" % si, line)
-        mfree = ctx.driver(["c13"], "bpfree fix %s\n" % ",".join(model))[0]
+        rc, so, se, counts, _, _, present = run_bp("base%d" % si, line)
+        if not present:
+            raise Infra("block processor harness left no report")
+        mfree = driver_lines(ctx, ["bpfree cur %s" % ",".join(model)])[0]
         want = " ".join(x.split("/")[0] for x in mfree.split())
         base_digest = so.split("digest=")[1] if "digest=" in so else "?"
         if rc != 0 or so.split("fired=")[0].split() != want.split():
@@ -676,13 +1300,15 @@ def bp_phase(ctx, report, stats, nworkers, env):
                    {"session": line, "model": ",".join(model), "stderr": se[-300:]}, found_input=False)
             continue
         jobs = [{"cls": c, "k": k} for c in ALLOC_CLASSES + ["write", "read", "trunc"] for k in range(1, counts.get(c, 0) + 1)]
+        if not jobs:
+            raise Infra("block processor session %d: nothing to fault" % si)
 
         def one(i, line=line, si=si, jobs=jobs):
             return jobs[i], run_bp("%d_%d" % (si, i), line, jobs[i])
         with concurrent.futures.ThreadPoolExecutor(nworkers) as ex:
             results = list(ex.map(one, range(len(jobs))))
         queries, pend = [], []
-        for f, (rc, so, se, _, bt, fired) in results:
+        for f, (rc, so, se, _, bt, fired, present) in results:
             bstat["runs"] += 1
             replay = {"bp_session": line, "model_session": ",".join(model), "fault": f, "rc": rc, "stdout": so, "stderr": se[-400:]}
             if rc != 0 or "fired=" not in so:
@@ -692,6 +1318,7 @@ def bp_phase(ctx, report, stats, nworkers, env):
             j = int(so.split("fired=")[1].split()[0])
             digest = so.split("digest=")[1] if "digest=" in so else "?"
             if not fired or j < 0:
+                bstat["outside_calls"] = bstat.get("outside_calls", 0) + 1
                 continue                      # fired outside the armed region (set-up / tear-down)
             bstat["fired_in_call"] += 1
             pf = [fn for fn, _ in project_frames(resolve_bt(exe, bt))]
@@ -711,39 +1338,41 @@ def bp_phase(ctx, report, stats, nworkers, env):
                 report("blockproc:%s:unreported@%s" % (cls_group(f["cls"]), kname),
                        "sqfs_block_processor call #%d returns 0 although a %s primitive (%s) failed while it ran [%s]" % (j, f["cls"], kname, " <- ".join(pf[:4])), replay)
             if kinds:
-                queries.append("bp fix %d %s %s" % (j, kname, ",".join(model)))
                 queries.append("bp cur %d %s %s" % (j, kname, ",".join(model)))
                 pend.append((f, rcs, j, kname, reported, replay))
             else:
                 report("corr:bp:kind:%s" % (pf[0] if pf else "?"), "fault site %s of the block processor has no primitive kind in the model" % pf[:4], replay, found_input=False)
-        if queries:
-            outl = ctx.driver(["c13"], "\n".join(queries) + "\n")
-            for n, (f, rcs, j, kname, reported, replay) in enumerate(pend):
-                bstat["model_compared"] += 1
-                mfix, mcur = outl[2 * n], outl[2 * n + 1]
-
-                def vec(m):
-                    return m.split(" faulted=")[0].split() if " faulted=" in m else None
-                if vec(mfix) == rcs[:j + 1]:
-                    continue
-                if vec(mcur) == rcs[:j + 1]:
-                    if reported:
-                        report("corr:bp:cur:%s" % kname, "real run matches the pinned model only, but the call reported the error", replay, found_input=False)
-                    continue
-                report("corr:bp:%s" % kname, "block processor: real results %s (fault in call %d, %s) vs model(fixed) %r, model(pinned) %r" % (rcs, j, kname, mfix, mcur),
-                       dict(replay, model_fixed=mfix, model_pinned=mcur), found_input=False)
+        outl = driver_lines(ctx, queries)
+        for n, (f, rcs, j, kname, reported, replay) in enumerate(pend):
+            bstat["model_compared"] += 1
+            m = outl[n]
+            vec = m.split(" faulted=")[0].split() if " faulted=" in m else None
+            if vec != rcs[:j + 1]:
+                acc["corr_bad"] += 1
+                report("corr:bp:%s" % kname, "block processor: real results %s (fault in call %d, %s) vs model %r" % (rcs, j, kname, m),
+                       dict(replay, model=m), found_input=False)
+    if bstat["fired_in_call"] == 0 or bstat["model_compared"] == 0:
+        raise Infra("block processor layer: no fault fired inside an API call")
 
 
-class Dedup:
-    """one VIOLATION / KNOWN-FINDING per key and run; further hits of the same key are counted"""
+# ------------------------------------------------------------------------------------------------ the check
+# sites that must have been made to fail at least once per run (coverage floor: if a generator stops reaching them the
+# check is not doing its job); quick tier
+FLOOR_SITES = ["openOut", "openHandle", "superWrite", "fstreeFromFile", "scanDir", "chdirPack", "nodePath", "packFile", "tarNext", "tarReadLink",
+               "tarEntry", "postProcess", "procFinish", "serialize", "fragTable", "exportWrite", "idTable", "xattrFlush", "superRewrite", "pad",
+               "sIterCreate", "sEntry", "sFlush", "rOpen", "rSuper", "rHierarchy", "rRestore", "rFill", "rAttribs", "rSplice"]
+FLOOR_RUNS = {"quick": 2500, "thorough": 6000}
 
-    def __init__(self, ctx):
-        self.ctx, self.count = ctx, {}
 
-    def __call__(self, key, what, replay, found_input=True):
-        self.count[key] = self.count.get(key, 0) + 1
-        if self.count[key] == 1:
-            self.ctx.violation(key, what, replay, found_input)
+def random_for(seed):
+    import random
+    return random.Random("C13-input/%d" % seed)
+
+
+def all_cases(ctx, tools, seed, thorough):
+    cases = gen_cases(ctx, ctx.scratch / "in", random_for(seed), tools, thorough)
+    bcases, growth = boundary_cases(ctx, ctx.scratch / "in", thorough)
+    return cases + bcases, growth
 
 
 def run(ctx):
@@ -752,190 +1381,75 @@ def run(ctx):
     if not ok:
         ctx.violation("proof:C13", "proof obligations of C13 no longer check: " + " | ".join(problems)[:1500],
                       {"broken": problems, "theorems_file": "lean/Sqfs/Props/C13.lean"}, found_input=False)
-    tools = build_tools(ctx)
+    tools, syms, skels = build_tools(ctx)
     env = ctx.san_env()
     work = ctx.scratch / "w"
     work.mkdir()
-    scale = 1 if ctx.quick() else 4
-    cases = gen_cases(ctx, ctx.scratch / "in", random_for(ctx.seed), tools, scale=scale, jobs="1")
-    bcases, growth = boundary_cases(ctx, ctx.scratch / "in", not ctx.quick())
-    cases += bcases
+    thorough = not ctx.quick()
+    cases, growth = all_cases(ctx, tools, ctx.seed, thorough)
+    only = os.environ.get("C13_ONLY")                      # development aid: restrict to some cases (the floors then do not apply)
+    if only:
+        cases = [c for c in cases if c.name in only.split(",")]
     nworkers = int(os.environ.get("VERIF_JOBS", "0")) or (4 if ctx.quick() else max(4, vlib.NCPU - 2))
     stats = {"runs": 0, "fired": 0, "verdicts": {}, "by_case": {}, "post_fault_output_writes": {}, "model_compared": 0,
-             "model_sites": {}, "tolerated": 0}
-    distinct, samples, monitor_lines, monitor_expect = set(), [], [], []
-    corr_bad = 0
+             "tolerated": 0, "outside_model": {}, "cut": {}}
+    acc = {"monitor": set(), "distinct": set(), "samples": [], "corr_bad": 0, "model_predicts_output_left": 0, "sites_failed": {}, "tree_variant": {}}
     for case in cases:
-        exe = tools[case.tool]
-        boundary = getattr(case, "boundary", False)
-        base = run_case(case, exe, work / "base", None, env_base=env, timeout=TIMEOUT_ISOLATED, trace=boundary)
-        if base["rc"] != 0 or base["out"] == "absent":
-            report("base:" + case.name, "fault-free run of %s fails: rc=%s %s" % (case.name, base["rc"], base["stderr"][-300:]),
-                          {"case": case.name, "argv": case.argv}, found_input=False)
-            continue
-        base2 = run_case(case, exe, work / "base2", None, env_base=env, timeout=TIMEOUT_ISOLATED)
-        if base2["out"] != base["out"]:
-            report("nondet:" + case.name, "two fault-free runs of %s differ" % case.name, {"case": case.name}, found_input=False)
-            continue
-        if boundary:
-            jobs = plan_stratified(ctx, base, not ctx.quick())
-        elif case.name == "gen-many":
-            n = base["report"]["count"].get(("realloc", "in"), 0)
-            ks = list(range(1, n + 1))
-            if ctx.quick() and n > 200:          # the tail (finish phase) completely, the parsing phase sampled
-                ks = sorted(set(ctx.rng.sample(range(1, n - 63), 100)) | set(range(n - 63, n + 1)))
-            jobs = [{"cls": "realloc", "k": k} for k in ks]
-        else:
-            jobs = plan_faults(ctx, case, base, exhaustive=True, sample_n=0)
-        model_ff = None
-        if case.model:
-            mt, mf, mn, ms = case.model
-            model_ff = parse_model(ctx.driver(["c13"], "run fix %s %s %d %d -\n" % (mt, mf, mn, ms))[0])
-            if model_ff["msgs"] != real_msgs(base["stdout"]) or model_ff["status"] != "0":
-                report("corr:faultfree:" + case.name, "fault-free progress trace differs: model %s, real %s" % (model_ff["msgs"], real_msgs(base["stdout"])),
-                              {"case": case.name, "correspondence": "Sqfs.FailStop.run (fault-free) vs stdout of " + case.tool}, found_input=False)
-
-        def one(i, case=case, exe=exe, jobs=jobs):
-            return jobs[i], run_case(case, exe, work / ("%s_%d" % (case.name, i)), jobs[i], env_base=env)
-
-        def rerun_if_timeout(f, r, case=case, exe=exe):
-            # a timeout under load is not a hang: repeat the one case alone with a much longer limit
-            if not r["timeout"]:
-                return r
-            stats["timeouts_rerun"] = stats.get("timeouts_rerun", 0) + 1
-            return run_case(case, exe, work / ("%s_iso" % case.name), f, env_base=env, timeout=TIMEOUT_ISOLATED)
-        results = []
-        with concurrent.futures.ThreadPoolExecutor(nworkers) as ex:
-            for f, r in ex.map(one, range(len(jobs))):
-                results.append((f, r))
-        results = [(f, rerun_if_timeout(f, r)) for f, r in results]
-        cstat = stats["by_case"].setdefault(case.name, {"faults": len(jobs), "fired": 0, "verdicts": {}})
-        model_queries, pending = [], []
-        for f, r in results:
-            stats["runs"] += 1
-            if not r["report"]["fired"] and not r["timeout"]:
-                # position beyond what this (failing earlier / shorter) run reaches: cannot happen for single faults
-                report("infra:notfired:%s:%s" % (case.name, f["cls"]), "fault %s did not fire in %s" % (f, case.name), {"case": case.name, "fault": f}, found_input=False)
-                continue
-            stats["fired"] += 1
-            cstat["fired"] += 1
-            o = observe(case, base, r)
-            v = verdict_py(o)
-            monitor_lines.append("monitor %d %d %d %d %d %d" % tuple(int(o[k]) for k in ("crashed", "exit0", "diag", "packer", "left", "same")))
-            monitor_expect.append(v)
-            frames = resolve_bt(exe, r["report"]["bt"])
-            site, stepfn = locate(case, frames, r["stdout"])
-            pf = project_frames(frames)
-            inner = pf[0][0] if pf else "?"
-            distinct.add((case.tool, cls_group(f["cls"]), inner, pf[1][0] if len(pf) > 1 else ""))
-            tag = v if v != "ok" else ("ok-same" if o["exit0"] else "ok-failed-clean")
-            stats["verdicts"][tag] = stats["verdicts"].get(tag, 0) + 1
-            cstat["verdicts"][tag] = cstat["verdicts"].get(tag, 0) + 1
-            if case.out_kind == "file" and not o["exit0"] and f.get("kind") != "EINTR":
-                pw = str(r["report"].get("post", 0))
-                stats["post_fault_output_writes"][pw] = stats["post_fault_output_writes"].get(pw, 0) + 1
-            if len(samples) < 12 and (v != "ok" or stats["runs"] % 97 == 0):
-                samples.append({"case": case.name, "fault": f, "verdict": v, "rc": r["rc"], "site": site, "innermost": inner,
-                                "stderr": r["stderr"].strip()[-160:]})
-            replay = {"case": case.name, "fault": f, "input_seed": ctx.seed, "scale": scale, "rc": r["rc"], "verdict": v,
-                      "backtrace": ["%s@%s" % x for x in pf[:8]], "stderr": r["stderr"][-600:]}
-            key = "%s:%s:%s@%s" % (case.tool, cls_group(f["cls"]), v, stepfn)
-            pending.append((f, r, o, v, site, stepfn, key, replay))
-            if case.model and site is not None and not (o["exit0"] and o["same"]):
-                model_queries.append((len(pending) - 1, site))
-        # model predictions for the located sites (both variants)
-        pred = {}
-        if model_queries:
-            mt, mf, mn, ms = case.model
-            sites = sorted({s for _, s in model_queries})
-            lines = []
-            for s in sites:
-                lines.append("run fix %s %s %d %d %s" % (mt, mf, mn, ms, s))
-                lines.append("run cur %s %s %d %d %s" % (mt, mf, mn, ms, s))
-            outl = ctx.driver(["c13"], "\n".join(lines) + "\n")
-            for j, s in enumerate(sites):
-                pred[s] = (outl[2 * j], outl[2 * j + 1])
-        qidx = dict(model_queries)
-        for idx, (f, r, o, v, site, stepfn, key, replay) in enumerate(pending):
-            explained = False
-            if o["exit0"] and o["same"]:
-                stats["tolerated"] += 1
-                if model_ff is not None and real_msgs(r["stdout"]) != model_ff["msgs"]:
-                    corr_bad += 1
-                    report("corr:msgs:" + key, "exit 0 but progress trace differs from the model's fault-free trace", replay, found_input=False)
-            elif idx in qidx:
-                stats["model_compared"] += 1
-                stats["model_sites"][site.split(":")[0]] = stats["model_sites"].get(site.split(":")[0], 0) + 1
-                if pred[site][0] == "bad-op":
-                    corr_bad += 1
-                    report("corr:site:" + key, "site %s located from the backtrace is not in the model's program for %s" % (site, case.name), replay, found_input=False)
-                else:
-                    mfix, mcur = parse_model(pred[site][0]), parse_model(pred[site][1])
-
-                    def agrees(m):
-                        if (m["status"] == "0") != o["exit0"]:
-                            return False
-                        if o["exit0"] and (m["damaged"] == "1") != (not o["same"]):
-                            return False
-                        if (m["out"] == "present") != o["left"] and not o["crashed"]:
-                            return False
-                        if not site.startswith("sparseTail") and not o["crashed"] and m["msgs"] != real_msgs(r["stdout"]):
-                            return False
-                        return True
-                    if o["crashed"]:
-                        pass
-                    elif agrees(mfix):
-                        explained = True
-                    elif agrees(mcur):
-                        explained = True          # the modelled (witnessed) defect: reported below through the oracle
-                        if v == "ok":
-                            corr_bad += 1
-                            report("corr:cur:" + key, "real run matches the model of the pinned source but the oracle is silent", replay, found_input=False)
-                    else:
-                        corr_bad += 1
-                        report("corr:" + key, "outcome of a fault at site %s differs from both models: real exit0=%s left=%s same=%s msgs=%s; model(fixed) %s; model(pinned) %s"
-                                      % (site, o["exit0"], o["left"], o["same"], real_msgs(r["stdout"]), pred[site][0], pred[site][1]),
-                                      dict(replay, model_fixed=pred[site][0], model_pinned=pred[site][1]), found_input=False)
-            if v != "ok":
-                what = {"crash": "crashes / hangs / sanitizer report", "exit0-different-output": "exits 0 with an output that differs from the fault-free run",
-                        "failure-output-left": "fails but leaves its partial output file behind", "failure-no-diagnostic": "fails without any diagnostic on stderr"}[v]
-                report(key, "%s %s when the %s call #%d (%s) fails in %s [%s]" % (case.tool, what, f["cls"], f["k"], f.get("kind", "NULL"), stepfn,
-                                                                                    " <- ".join(x.split("@")[0] for x in replay["backtrace"][:4])), replay)
-    bp_phase(ctx, report, stats, nworkers, env)
-    # the Lean specification evaluated on every observation must agree with the Python mirror used above
-    if monitor_lines:
-        uniq = sorted(set(zip(monitor_lines, monitor_expect)))
-        got = ctx.driver(["c13"], "\n".join(l for l, _ in uniq) + "\n")
-        for (l, e), g in zip(uniq, got):
-            if g != e:
-                report("infra:monitor", "Spec.verdict (Lean) = %s but the runner computed %s on %s" % (g, e, l), {"line": l}, found_input=False)
+        t0 = time.time()
+        process_case(ctx, case, tools, syms, skels, env, work, report, stats, thorough, nworkers, acc)
+        stats["by_case"].get(case.name, {})["wall_s"] = round(time.time() - t0, 1)
+    if not only or "bp" in only.split(","):
+        bp_phase(ctx, report, stats, nworkers, env, acc)
+    # the Lean specification evaluated on every distinct observation must agree with the Python mirror used above
+    uniq = sorted(acc["monitor"])
+    if not uniq:
+        raise Infra("no observation was judged")
+    got = driver_lines(ctx, [l for l, _ in uniq])
+    for (l, e), g in zip(uniq, got):
+        if g != e:
+            report("infra:monitor", "Spec.verdict (Lean) = %s but the runner computed %s on %s" % (g, e, l), {"line": l}, found_input=False)
+    nbp = stats.get("blockproc", {}).get("runs", 0)
+    never = [s for s in FLOOR_SITES if s not in acc["sites_failed"]]
+    floor = []
+    if not only:
+        if stats["runs"] < FLOOR_RUNS[ctx.tier] or stats["model_compared"] < FLOOR_RUNS[ctx.tier] // 2:
+            floor.append("%d runs, %d compared with the model" % (stats["runs"], stats["model_compared"]))
+        if never:
+            floor.append("no fault made these sites fail: %s" % never)
+        if floor and not ctx.violations:
+            # (when a correspondence violation was reported the model comparison of that case is skipped, which explains a
+            # missed floor; otherwise the generators no longer reach the code and the check must not pass)
+            raise Infra("coverage floor: " + "; ".join(floor))
     ctx.cov.update({
-        "evaluations": stats["runs"] + stats.get("blockproc", {}).get("runs", 0),
-        "distinct_nontrivial": len(distinct),
+        "evaluations": stats["runs"] + nbp,
+        "distinct_nontrivial": len(acc["distinct"]),
         "rule": "every single fault position of every class (write/read/trunc/open/lseek/fsync/close × in/out × EIO/EINTR-then-error(/ENOSPC for writes); "
-                "malloc/calloc/realloc/strdup by project code) found by a counting run, for gensquashfs (-F and -D), tar2sqfs, sqfs2tar (plain and gzip), "
-                "rdsquashfs -u, -c, -x and -d on a generated input (duplicate, fragment, all-zero tails, sparse blocks, hard link, xattrs, export table); "
-                "boundary cases b-meta / b-data (/ b-frag in thorough) sized just beyond the flush and growth thresholds read from the sources "
-                "(meta block size, array first capacity, block writer list, export table, xattr pair array, inode block list): every output write/truncate, "
-                "allocations stratified by call site (all positions of sites with few calls, first/last/spread of mass sites); "
-                "gen-many: realloc positions on a 513-inode tree (thorough: all; quick: the last 64 and 100 sampled); non-trivial = distinct (tool, class, innermost two project frames) at which a fault fired",
+                "fsop = chdir/mkdir/mknod/symlink/fstat/fstatat/dup/lsetxattr/utimensat/fchownat/fchmodat/readlinkat/l*xattr × EIO; malloc/calloc/realloc/strdup by project code; "
+                "truncated input = EOF or a short read at every read of the input) found by a counting run, for gensquashfs (-F with xattr/sort/SELinux files and -D; "
+                "relative output name × --pack-dir / -D . / no pack dir), tar2sqfs (plain and --root-becomes with links), sqfs2tar (plain, -c), rdsquashfs -u (plain and -C -O -T -X), "
+                "-c, -x, -d, -s on a generated input (duplicate, fragment, all-zero tails, sparse blocks, hard link, xattrs, export table; extras, compressor, -j and "
+                "-q depend on the seed); gen-mt: -j 2..4, sampled; boundary cases b-meta (every table > one meta block) / b-data (block list growth, duplicate "
+                "fragment read back from disk) (/ b-frag in thorough): every output write/truncate, allocations stratified by call site; gen-many: realloc positions on a "
+                "513-inode tree. non-trivial = distinct (tool, class, innermost two project frames) at which a fault fired",
         "exhaustive": True,
-        "samples": samples,
-        "disagreements_checked": corr_bad,
+        "samples": acc["samples"],
+        "disagreements_checked": acc["corr_bad"],
+        "runs_in_which_the_model_predicts_output_left": acc["model_predicts_output_left"],
+        "tree_matches_variant": acc["tree_variant"],
+        "sites_made_to_fail": acc["sites_failed"],
+        "floor_missed": floor,
         "violation_keys": report.count,
         "histogram": stats,
-        "workers": nworkers, "input_scale": scale, "growth_constants": growth,
+        "workers": nworkers, "growth_constants": growth,
     })
     return ctx.finish(LEVEL, trusted_extra=[
-        "harness/shim_fault.c (link-time syscall wrappers, allocation renames) and tools/checks/c13.py (backtrace → model site table, oracle mirror) are trusted",
-        "modelled, not verified: the call order of main/sqfs_writer_init/sqfs_writer_finish and which results are checked; propagation through the glue below a site "
-        "is established only by the enumeration (complete per input, not for all inputs)"],
-        assumptions=["faults are single (one failing call per run; EINTR kind = EINTR then EIO on the retry)", "third-party libraries' own allocations and the kernel are not faulted"])
-
-
-def random_for(seed):
-    import random
-    return random.Random("C13-input/%d" % seed)
+        "harness/shim_fault.c (link-time syscall wrappers, allocation renames, -finstrument-functions call log) and tools/checks/c13.py (call → site table, oracle "
+        "mirror, judgement of truncated input) are trusted; gcc's instrumentation reports every function entry",
+        "the model's site order, reactions, phase structure, unlink target, diagnostics and progress messages are *compared* with every real run (call log, status, "
+        "output, stderr, stdout); what happens below a site (tar parser, fstree, xattr writer, meta writers, readers) is established only by the enumeration "
+        "(complete per input and single fault, not for all inputs)"],
+        assumptions=["faults are single (one failing call per run; EINTR kind = EINTR then EIO on the retry; truncated input = the input ends at one point and stays ended)",
+                     "third-party libraries' own allocations and the kernel are not faulted; mempool.c (mmap) is not part of the build (NO_CUSTOM_ALLOC)"])
 
 
 def replay(ctx, path):
@@ -944,12 +1458,10 @@ def replay(ctx, path):
     if "fault" not in rp:
         print("replay file names a broken obligation, no input to replay:", json.dumps(rp)[:500])
         return 1
+    env = ctx.san_env()
     if "bp_session" in rp:
         build_tools(ctx)
-        env = ctx.san_env()
-        lib = ctx.build_lib("fault", ALLOC_DEFS)
-        ld = ["-no-pie", "-Wl," + ",".join("--wrap=" + x for x in WRAP_SYMS)]
-        exe = ctx.cc("h_c13_bp", ["h_c13_bp.c"], flags=["-fno-pie"], libs=[str(ctx.scratch / "shim_fault.o"), str(lib)] + vlib.CODEC_LIBS + ld)
+        exe = bp_build(ctx)
         out = ctx.scratch / "bp_out"
         res = []
         for fault in (None, rp["fault"]):
@@ -970,20 +1482,30 @@ def replay(ctx, path):
         bad = j >= 0 and "err" not in rcs and so.split("digest=")[1] != res[0][1].split("digest=")[1]
         print("verdict   :", "unreported failure, result differs" if bad else "ok")
         return 1 if bad else 0
-    tools = build_tools(ctx)
-    env = ctx.san_env()
-    cases = gen_cases(ctx, ctx.scratch / "in", random_for(rp.get("input_seed", 0)), tools, scale=rp.get("scale", 1))
-    cases += boundary_cases(ctx, ctx.scratch / "in", True)[0]
-    case = [c for c in cases if c.name == rp["case"]][0]
-    exe = tools[case.tool]
-    base = run_case(case, exe, ctx.scratch / "w" / "base", None, env_base=env, timeout=TIMEOUT_ISOLATED)
-    r = run_case(case, exe, ctx.scratch / "w" / "r", rp["fault"], env_base=env, timeout=TIMEOUT_ISOLATED)
-    o = observe(case, base, r)
+    tools, syms, skels = build_tools(ctx)
+    ctx.tier = rp.get("tier", "quick")
+    cases, _ = all_cases(ctx, tools, rp.get("input_seed", 0), rp.get("tier", "quick") != "quick")
+    hit = [c for c in cases if c.name == rp["case"]]
+    if not hit:
+        print("no case named", rp["case"])
+        return 1
+    case = hit[0]
+    exe, st, skel = tools[case.tool], syms[case.tool], skels[case.tool]
+    base = run_case(case, exe, ctx.scratch / "w" / "base", skel, None, env_base=env, timeout=TIMEOUT_ISOLATED)
+    r = run_case(case, exe, ctx.scratch / "w" / "r", skel, rp["fault"], env_base=env, timeout=TIMEOUT_ISOLATED)
+    same = None
+    if rp["fault"].get("kind") in CUT_KINDS:
+        same, note = judge_cut(case, base, r, CutRef(ctx, case, exe, skel, env, ctx.scratch / "w"))
+        print("cut    :", r["report"]["cut"], note)
+    o = observe(case, base, r, same)
     v = verdict_py(o)
     frames = project_frames(resolve_bt(exe, r["report"]["bt"]))
-    print("case   :", case.name, case.tool, " ".join(case.argv))
+    items = map_log(case.tool, st, r["sites"])
+    print("case   :", case.name, case.tool, " ".join(case.argv), "(cwd %s)" % case.cwd if case.cwd else "")
     print("fault  :", rp["fault"], "fired:", r["report"]["fired"])
     print("at     :", " <- ".join("%s@%s" % x for x in frames[:8]))
+    print("sites  :", " ".join(it[1] for it in items if it[0] == "site"))
+    print("unlink :", [it[1] for it in items if it[0] == "unlink"])
     print("exit   :", r["rc"], "timeout" if r["timeout"] else "")
     print("output :", r["out"][:16], "(fault-free %s)" % base["out"][:16])
     print("stderr :", r["stderr"].strip()[-400:])
